@@ -76,6 +76,8 @@ EXCLUDE = {
     "negzero_literal",          # -0.0 shares the cache entry of 0.0 (C12 finding) -> wrong sign
     "unnamed_tensor_operand",   # numpy array / unnamed ir.tensor operand: 'Initializer must have a name'
     "body_dup_return",          # body returning one value for two declared outputs -> duplicate subgraph outputs
+    "kw_input_after_gap",       # op.Clip(x, max=3.0): keyword input after an omitted optional one lands one position early
+    "rehomed_in_unnamed_sequential",  # trees: Sequential(*old_list[k:]) keeps the names the old list gave ("3.w" vs key "0.w")
 }
 _env_ex = os.environ.get("VERIF_C18_EXCLUDE")
 if _env_ex is not None:
@@ -191,9 +193,12 @@ class TreeSim:
 
     MAXH = 4
 
-    def __init__(self):
+    def __init__(self, exclude=()):
         from onnxscript import nn
 
+        self.exclude = set(exclude)
+        self.redirected = 0
+        self.rehomed_in_seq = False   # a module taken out of a retired ModuleList was put into a Sequential
         self.nn = nn
         self.nodes = []   # dict(kind M|L|S, obj, parent, key, kids:list[(key,id)], params:list[(attr,pid)], name, style, twice, dead)
         self.params = []  # dict(obj, value)
@@ -261,7 +266,8 @@ class TreeSim:
         return [i for i, n in enumerate(self.nodes) if not n["dead"] and n["kind"] in kinds]
 
     def _new(self, kind, obj, name=None):
-        self.nodes.append(dict(kind=kind, obj=obj, parent=None, key=None, kids=[], params=[], name=name, style="iter", twice=False, dead=False))
+        self.nodes.append(dict(kind=kind, obj=obj, parent=None, key=None, kids=[], params=[], name=name, style="iter", twice=False, dead=False,
+                               rehomed=False))
         return len(self.nodes) - 1
 
     def can_attach(self, parent, child):
@@ -314,6 +320,7 @@ class TreeSim:
     def op_new_seq(self, o):
         kids = list(dict.fromkeys(o.get("children", [])))
         kids = [k for k in kids if k in self.detached("MS", unnamed_only=True)]
+        kids = self._no_rehomed(kids)
         if kids and 1 + max(self.height(k) for k in kids) > self.MAXH:
             return False
         o["children"] = kids
@@ -321,6 +328,17 @@ class TreeSim:
         for j, k in enumerate(kids):
             self._link(i, k, str(j))
         return True
+
+    def _no_rehomed(self, kids):
+        """Region rehomed_in_unnamed_sequential: a module that was a child of a (retired) ModuleList keeps the name that list
+        gave it; inside a Sequential nobody refreshes it.  Excluded -> such modules are not put into a Sequential."""
+        bad = [k for k in kids if self.nodes[k]["rehomed"]]
+        if bad and "rehomed_in_unnamed_sequential" in self.exclude:
+            self.redirected += 1
+            return [k for k in kids if k not in bad]
+        if bad:
+            self.rehomed_in_seq = True
+        return kids
 
     def op_attach(self, o):
         p, c = o["parent"], o["child"]
@@ -352,6 +370,8 @@ class TreeSim:
         p, c = o["parent"], o["child"]
         if not self._appendable(p, c):
             return False
+        if self.nodes[p]["kind"] == "S" and not self._no_rehomed([c]):
+            return False
         self.nodes[p]["obj"].append(self.nodes[c]["obj"])
         self._link(p, c, str(len(self.nodes[p]["kids"])))
         return True
@@ -362,9 +382,10 @@ class TreeSim:
         for c in dict.fromkeys(o["children"]):
             if self._appendable(p, c) and c != p:
                 kids.append(c)
+        if kids and self.nodes[p]["kind"] == "S":
+            kids = self._no_rehomed(kids)
         if not kids:
             return False
-        # all must fit together
         o["children"] = kids
         self.nodes[p]["obj"].extend([self.nodes[c]["obj"] for c in kids])
         for c in kids:
@@ -402,10 +423,12 @@ class TreeSim:
         old = self.nodes[i]["obj"]
         pieces = [(old[:cut], kids[:cut], o.get("as0", "L")), (old[cut:], kids[cut:], o.get("as1", "L"))]
         self.nodes[i]["dead"] = True
+        for _, k in kids:
+            self.nodes[k]["rehomed"] = True
         for sl, ks, as_ in pieces:
             if not ks:
                 continue
-            if as_ == "S" and all(self.nodes[k]["kind"] in "MS" for _, k in ks):
+            if as_ == "S" and all(self.nodes[k]["kind"] in "MS" for _, k in ks) and self._no_rehomed([k for _, k in ks]):
                 j = self._new("S", self.nn.Sequential(*sl))
             else:
                 j = self._new("L", sl)
@@ -417,9 +440,17 @@ class TreeSim:
         return True
 
     def op_build(self, o):
-        roots = [i for i in self.detached("MS") if self.nodes[i]["kind"] == "M" or self.nodes[i]["kids"]]
-        if not roots:
-            return False
+        roots = self.detached("MS")
+        if not roots:   # only lists around: a ModuleList is not callable, so wrap the biggest one in a Module
+            lists = self.detached("L")
+            if not lists:
+                return False
+            n = len(self.nodes)
+            self.apply({"op": "new_module", "name": None})
+            if not self.apply({"op": "attach", "parent": n, "child": max(lists, key=lambda i: (self.size(i), -i)), "attr": "layers"}):
+                self.nodes[n]["dead"] = True
+                return False
+            roots = [n]
         r = o.get("root")
         if r not in roots:
             r = max(roots, key=lambda i: (self.size(i), -i))
@@ -427,6 +458,14 @@ class TreeSim:
                 r = roots[o["pick"] % len(roots)]
         o["root"] = r
         o.pop("pick", None)
+        # Sequential.forward raises on an empty container (documented): give every empty one a leaf first
+        for j in _subtree(self, r):
+            if self.nodes[j]["kind"] == "S" and not self.nodes[j]["kids"]:
+                n = len(self.nodes)
+                self.apply({"op": "new_module", "name": None})
+                self.apply({"op": "param", "mod": n, "attr": "w", "named": bool(j % 2), "data": True})
+                if not self.apply({"op": "append", "parent": j, "child": n}):   # height limit: cannot be filled
+                    return False
         self.done = r
         return True
 
@@ -495,6 +534,8 @@ def tree_finish(sim):
     except Exception as e:  # noqa: BLE001
         verdicts.append((f"raise:Module.__call__:{_frame(e)}", f"{type(e).__name__}: {str(e)[:300]}"))
         return verdicts, info
+    if y is x:
+        y = gb.op.Identity(x)
     prefix = (root.name + ".") if root.name else ""
     expected = {prefix + k: pid for k, pid in spec.items()}
     inits = dict(graph.initializers)
@@ -581,7 +622,8 @@ def tree_record(col, sim, verdicts, info):
         classes.append("tree:container-in-container")
     col.case(("tree", _hash(sig)), nontrivial, classes, sample={"part": "tree", "root_name": sim.nodes[r]["name"], "tree": sim.text(r)})
     for bucket, detail in verdicts:
-        col.violation("tree:" + bucket, detail, {"part": "tree", "history": sim.history, "text": sim.text(r)}, size=len(sim.history))
+        col.violation("tree:" + bucket, detail, {"part": "tree", "history": sim.history, "text": sim.text(r), "exclude": sorted(sim.exclude),
+                                                 "rehomed_in_seq": sim.rehomed_in_seq}, size=len(sim.history))
 
 
 def _nested_containers(sim, r):
@@ -592,7 +634,7 @@ def _nested_containers(sim, r):
 
 
 def tree_replay(case):
-    sim = TreeSim()
+    sim = TreeSim(case.get("exclude", ()))
     for o in case["history"]:
         sim.apply(dict(o))
     if sim.done is None:
@@ -602,17 +644,24 @@ def tree_replay(case):
 
 
 def make_tree_machine(col):
-    from hypothesis.stateful import RuleBasedStateMachine, precondition, rule
+    from hypothesis.stateful import RuleBasedStateMachine, initialize, precondition, rule
 
     ints = st.integers(0, 1000)
 
     class TreeMachine(RuleBasedStateMachine):
         def __init__(self):
             super().__init__()
-            self.sim = TreeSim()
+            self.sim = TreeSim(EXCLUDE)
 
         def _pick(self, lst, k):
             return lst[k % len(lst)] if lst else None
+
+        @initialize(name=st.sampled_from([None, None, "model", "m", ""]), kind=st.sampled_from("MMMS"))
+        def start(self, name, kind):
+            if kind == "M":
+                self.sim.apply({"op": "new_module", "name": name})
+            else:
+                self.sim.apply({"op": "new_seq", "children": []})
 
         @precondition(lambda self: self.sim.done is None)
         @rule(name=st.sampled_from([None, None, None, "a", "b", "model", "layers", ""]))
@@ -660,13 +709,43 @@ def make_tree_machine(col):
         def slice_(self, i, cut, as0, as1):
             self.sim.apply({"op": "slice", "list": self._pick(self.sim.detached("L"), i), "cut": cut, "as0": as0, "as1": as1})
 
-        @precondition(lambda self: self.sim.done is None and len(self.sim.nodes) >= 3)
-        @rule(pick=ints, biggest=st.booleans())
+        @precondition(lambda self: self.sim.done is None and self.sim.alive())
+        @rule(p=ints, kind=st.sampled_from("MMMLLSS"), explicit=st.booleans(), attr=st.sampled_from(ATTRS),
+              pattrs=st.lists(st.tuples(st.sampled_from(PATTRS), st.booleans()), max_size=2, unique_by=lambda t: t[0]),
+              style=st.sampled_from(["iter", "index", "negindex", "slices", "slice_step"]))
+        def grow(self, p, kind, explicit, attr, pattrs, style):
+            """Top-down growth: create a node and hang it under an existing one at once."""
+            sim = self.sim
+            parent = self._pick(sim.alive(), p)
+            pk = sim.nodes[parent]["kind"]
+            if pk == "S" and kind == "L":
+                kind = "M"
+            n = len(sim.nodes)
+            if kind == "M":
+                sim.apply({"op": "new_module", "name": attr if (explicit and pk == "M") else None})
+                for a, named in pattrs:
+                    sim.apply({"op": "param", "mod": n, "attr": a, "named": named, "data": True})
+            elif kind == "L":
+                sim.apply({"op": "new_list", "children": [], "style": style, "form": "list"})
+            else:
+                sim.apply({"op": "new_seq", "children": []})
+            if pk == "M":
+                sim.apply({"op": "attach", "parent": parent, "child": n, "attr": attr, "twice": False})
+            else:
+                sim.apply({"op": "append", "parent": parent, "child": n})
+
+        @precondition(lambda self: self.sim.done is None and len(self.sim.history) >= 8)
+        @rule(pick=ints, biggest=st.sampled_from([True, True, True, False]))
         def build(self, pick, biggest):
             o = {"op": "build"}
             if not biggest:
                 o["pick"] = pick
             self.sim.apply(o)
+
+        @precondition(lambda self: self.sim.done is not None)
+        @rule()
+        def idle(self):
+            """After the terminal rule nothing else may happen (realised Parameters cannot be re-used)."""
 
         def teardown(self):
             sim = self.sim
@@ -676,9 +755,2147 @@ def make_tree_machine(col):
                 col.skip("tree:no-buildable-root")
                 return
             verdicts, info = tree_finish(sim)
+            for _ in range(sim.redirected):
+                col.exclude("rehomed_in_unnamed_sequential")
             tree_record(col, sim, verdicts, info)
 
     return TreeMachine
+
+
+# =====================================================================================================================
+# part (a): traced programs - numpy interpreter (the replay oracle)
+# =====================================================================================================================
+NP = {"FLOAT": np.float32, "DOUBLE": np.float64, "INT64": np.int64, "INT32": np.int32, "BOOL": np.bool_}
+ENUM = {"FLOAT": 1, "DOUBLE": 11, "INT64": 7, "INT32": 6, "BOOL": 9}
+NAME_OF = {np.dtype(v): k for k, v in NP.items()}
+
+
+def dtn(a):
+    return NAME_OF[np.asarray(a).dtype]
+
+
+class ReplayError(Exception):
+    """The program is outside the domain of the numpy interpreter (generator drops the step / case is skipped)."""
+
+
+def _lit_value(o):
+    v = o["lit"]
+    if isinstance(v, str):   # non-finite floats are stored as strings to keep the case strict-JSON
+        return {"inf": float("inf"), "-inf": float("-inf"), "nan": float("nan"), "-0.0": -0.0}[v]
+    if isinstance(v, list):
+        return [_lit_value({"lit": x}) for x in v]
+    return v
+
+
+def default_lit_dtype(v):
+    e = v[0] if isinstance(v, (list, tuple)) else v
+    if isinstance(e, bool):
+        return np.bool_
+    if isinstance(e, int):
+        return np.int64
+    if isinstance(e, float):
+        return np.float32
+    raise ReplayError(f"literal {v!r}")
+
+
+def schema_of(op, dom, opset):
+    if dom not in ("", "ai.onnx"):
+        return None
+    try:
+        return onnx.defs.get_schema(op, opset, "")
+    except Exception:  # noqa: BLE001
+        return None
+
+
+def arrange(step, schema):
+    """Operands in formal order.  Inputs given by keyword go to the position of the formal parameter of that name
+    (what 'placed in schema order' in builder_test means); skipped optional inputs in between are absent (None)."""
+    ops = list(step["ins"])
+    kw = step.get("kwins") or {}
+    if kw:
+        if schema is None:
+            raise ReplayError("keyword inputs need a schema")
+        names = [i.name for i in schema.inputs]
+        for k, v in kw.items():
+            idx = names.index(k)
+            while len(ops) <= idx:
+                ops.append({"none": 1})
+            ops[idx] = v
+    return ops
+
+
+def typevars(schema, n):
+    out = []
+    for i in range(n):
+        if schema is None:
+            out.append(None)
+        elif i < len(schema.inputs):
+            out.append(schema.inputs[i].type_str)
+        elif schema.inputs and schema.inputs[-1].option == onnx.defs.OpSchema.FormalParameterOption.Variadic:
+            out.append(schema.inputs[-1].type_str if schema.inputs[-1].is_homogeneous else None)
+        else:
+            raise ReplayError("too many operands")
+    return out
+
+
+def _attr_to_onnx(v):
+    if isinstance(v, dict) and "tensor" in v:
+        return numpy_helper.from_array(optcommon.arr_from_json(v["tensor"]))
+    return v
+
+
+def contrib_kernel(op, ins, attrs):
+    from math import erf, sqrt
+
+    x = ins[0]
+    if op == "Gelu":
+        e = np.vectorize(erf, otypes=[np.float64])(x.astype(np.float64) / sqrt(2.0))
+        return [(0.5 * x.astype(np.float64) * (1.0 + e)).astype(x.dtype)]
+    if op == "QuickGelu":
+        al = np.float32(attrs.get("alpha", 1.702))
+        z = x.astype(np.float64) * float(al)
+        return [(x.astype(np.float64) / (1.0 + np.exp(-z))).astype(x.dtype)]
+    raise ReplayError(f"contrib op {op}")
+
+
+def run_kernel(op, dom, opset, ins, attrs, nout):
+    if dom == "com.microsoft":
+        return contrib_kernel(op, ins, attrs)
+    from onnx.reference import ReferenceEvaluator
+
+    names = [f"i{k}" if a is not None else "" for k, a in enumerate(ins)]
+    while names and names[-1] == "":
+        names.pop()
+    node = helper.make_node(op, names, [f"o{k}" for k in range(nout)], **{k: _attr_to_onnx(v) for k, v in attrs.items()})
+    gin = [helper.make_tensor_value_info(n, helper.np_dtype_to_tensor_dtype(np.asarray(a).dtype), None) for n, a in zip(names, ins) if n]
+    gout = [helper.make_empty_tensor_value_info(f"o{k}") for k in range(nout)]
+    m = helper.make_model(helper.make_graph([node], "k", gin, gout), opset_imports=[helper.make_opsetid("", opset)], ir_version=10)
+    try:
+        res = ReferenceEvaluator(m).run(None, {n: np.asarray(a) for n, a in zip(names, ins) if n})
+    except Exception as e:  # noqa: BLE001
+        raise ReplayError(f"{op}: {type(e).__name__}: {str(e)[:120]}") from None
+    out = []
+    for r in res:
+        r = np.asarray(r)
+        if r.dtype not in NAME_OF:
+            raise ReplayError(f"{op}: dtype {r.dtype}")
+        out.append(r)
+    return out
+
+
+class Interp:
+    """Executes a program on numpy arrays.  env: var id -> array."""
+
+    def __init__(self, prog):
+        self.prog = prog
+        self.opset = prog["opset"]
+        self.funcs = prog.get("funcs", [])
+        self.frec = {}     # function name -> argument arrays of its first call (types of build_function inputs)
+
+    # ---- operands
+    def operand_arrays(self, step, env, schema):
+        ops = arrange(step, schema)
+        tvs = typevars(schema, len(ops))
+        bind = {}
+        for o, t in zip(ops, tvs):
+            if t is not None and "(" not in t and t not in bind and "v" in o:
+                bind[t] = np.asarray(env[o["v"]]).dtype
+        arrs = []
+        for o, t in zip(ops, tvs):
+            if "none" in o:
+                arrs.append(None)
+            elif "v" in o:
+                arrs.append(env[o["v"]])
+            elif "lit" in o:
+                v = _lit_value(o)
+                dt = bind.get(t) if (t is not None and "(" not in t) else None
+                arrs.append(np.array(v, dtype=dt if dt is not None else default_lit_dtype(v)))
+            elif "tensor" in o:
+                arrs.append(optcommon.arr_from_json(o["tensor"]))
+            else:
+                raise ReplayError(f"operand {o}")
+        return arrs
+
+    def attrs_of(self, step, attrenv):
+        out = {}
+        for k, v in (step.get("attrs") or {}).items():
+            if isinstance(v, dict) and "ref" in v:
+                if v["ref"] not in attrenv:
+                    raise ReplayError(f"unbound attribute {v['ref']}")
+                out[k] = attrenv[v["ref"]]
+            else:
+                out[k] = v
+        return out
+
+    # ---- steps
+    def run_steps(self, steps, env, attrenv):
+        for s in steps:
+            self.step(s, env, attrenv)
+
+    def step(self, s, env, attrenv=None):
+        attrenv = attrenv or {}
+        k = s["k"]
+        if k == "op":
+            schema = schema_of(s["op"], s.get("dom", ""), self.opset)
+            arrs = self.operand_arrays(s, env, schema)
+            res = run_kernel(s["op"], s.get("dom", ""), self.opset, arrs, self.attrs_of(s, attrenv), len(s["outs"]))
+            for i, r in zip(s["outs"], res):
+                env[i] = r
+        elif k in ("push", "pop"):
+            pass
+        elif k == "init":
+            env[s["out"]] = optcommon.arr_from_json(s["arr"])
+        elif k == "if":
+            c = self._scalar(s["cond"], env, np.bool_)
+            body = s["then"] if bool(c) else s["else"]
+            rets = self.run_body(body, env, [], attrenv)
+            if isinstance(env, RecEnv):   # the driver declares body outputs of both branches: learn the other branch's types too
+                try:
+                    self.run_body(s["else"] if bool(c) else s["then"], env, [], attrenv)
+                except Exception:  # noqa: BLE001
+                    pass
+            for i, r in zip(s["outs"], rets):
+                env[i] = r
+        elif k == "loop":
+            self.loop(s, env, attrenv)
+        elif k == "scan":
+            self.scan(s, env, attrenv)
+        elif k == "call":
+            f = self.funcs[s["fn"]]
+            args = []
+            for o in s["args"]:
+                if "v" in o:
+                    args.append(env[o["v"]])
+                else:
+                    v = _lit_value(o)
+                    args.append(np.array(v, dtype=default_lit_dtype(v)))   # functions have no schema: Python default dtype
+            rets = self.call(f, args, s.get("attrs") or {})
+            for i, r in zip(s["outs"], rets):
+                env[i] = r
+        else:
+            raise ReplayError(f"step kind {k}")
+
+    def _scalar(self, o, env, dt):
+        if "v" in o:
+            a = np.asarray(env[o["v"]])
+        else:
+            a = np.array(_lit_value(o), dtype=dt)
+        if a.size != 1:
+            raise ReplayError("scalar expected")
+        return a.reshape(()).astype(dt)
+
+    def run_body(self, body, env, params, attrenv):
+        benv = RecEnv(env, sink=env.all) if isinstance(env, RecEnv) else dict(env)
+        for i, a in zip(body.get("params", []), params):
+            benv[i] = a
+        self.run_steps(body["steps"], benv, attrenv)
+        return [benv[r] for r in body["ret"]]
+
+    def loop(self, s, env, attrenv):
+        trip = None if s.get("trip") is None else int(self._scalar(s["trip"], env, np.int64))
+        cond = True if s.get("cond") is None else bool(self._scalar(s["cond"], env, np.bool_))
+        carried = [env[o["v"]] for o in s["init"]]
+        nc = len(carried)
+        nscan = len(s["outs"]) - nc
+        scans = [[] for _ in range(nscan)]
+        i = 0
+        while (trip is None or i < trip) and cond:
+            if i > 16:
+                raise ReplayError("loop too long")
+            rets = self.run_body(s["body"], env, [np.array(i, dtype=np.int64), np.array(cond, dtype=np.bool_)] + carried, attrenv)
+            c = np.asarray(rets[0])
+            if c.dtype != np.bool_ or c.size != 1:
+                raise ReplayError("loop condition must be a bool scalar")
+            cond = bool(c)
+            new = rets[1:1 + nc]
+            for a, b in zip(carried, new):
+                if np.asarray(a).dtype != np.asarray(b).dtype or np.asarray(a).shape != np.asarray(b).shape:
+                    raise ReplayError("loop-carried value changes type/shape")
+            carried = new
+            for lst, r in zip(scans, rets[1 + nc:]):
+                lst.append(np.asarray(r))
+            i += 1
+        if nscan and i == 0:
+            raise ReplayError("zero iterations with scan outputs")
+        outs = list(carried) + [np.stack(lst) for lst in scans]
+        for i_, r in zip(s["outs"], outs):
+            env[i_] = r
+
+    def scan(self, s, env, attrenv):
+        state = [env[o["v"]] for o in s["init"]]
+        xs = [np.asarray(env[o["v"]]) for o in s["xs"]]
+        n = xs[0].shape[0]
+        if any(x.ndim < 1 or x.shape[0] != n for x in xs) or n == 0:
+            raise ReplayError("scan inputs")
+        ns = len(state)
+        scans = [[] for _ in range(len(s["outs"]) - ns)]
+        for t in range(n):
+            rets = self.run_body(s["body"], env, list(state) + [x[t] for x in xs], attrenv)
+            new = rets[:ns]
+            for a, b in zip(state, new):
+                if np.asarray(a).dtype != np.asarray(b).dtype or np.asarray(a).shape != np.asarray(b).shape:
+                    raise ReplayError("scan state changes type/shape")
+            state = new
+            for lst, r in zip(scans, rets[ns:]):
+                lst.append(np.asarray(r))
+        outs = list(state) + [np.stack(lst) for lst in scans]
+        for i_, r in zip(s["outs"], outs):
+            env[i_] = r
+
+    def call(self, f, args, given):
+        attrenv = {}
+        for a in f["attrs"]:
+            if a["name"] in given:
+                attrenv[a["name"]] = given[a["name"]]
+            elif a.get("default") is not None:
+                attrenv[a["name"]] = a["default"]
+            else:
+                raise ReplayError(f"required attribute {a['name']} missing")
+        self.frec.setdefault(f["name"], list(args))
+        fenv = {i: a for i, a in zip(f["params"], args)}
+        inner = Interp({"opset": self.opset, "funcs": self.funcs})
+        for s in f["body"]:
+            if s["k"] == "call":   # nested script call: attribute values may forward the caller's attributes
+                s = dict(s, attrs={k: (attrenv[v["ref"]] if isinstance(v, dict) and "ref" in v else v) for k, v in (s.get("attrs") or {}).items()})
+            inner.step(s, fenv, attrenv)
+        return [fenv[r] for r in f["ret"]]
+
+
+# =====================================================================================================================
+# part (a): the same program performed on an onnxscript.GraphBuilder
+# =====================================================================================================================
+def _steps_walk(steps):
+    for s in steps:
+        yield s
+        if s["k"] == "if":
+            yield from _steps_walk(s["then"]["steps"])
+            yield from _steps_walk(s["else"]["steps"])
+        elif s["k"] in ("loop", "scan"):
+            yield from _steps_walk(s["body"]["steps"])
+
+
+def prog_steps(prog, with_funcs=True):
+    yield from _steps_walk(prog["steps"])
+    if with_funcs:
+        for f in prog.get("funcs", []):
+            yield from _steps_walk(f["body"])
+
+
+def func_source(f, idx, funcs):
+    """Python text of an @script function for a straight-line function body."""
+
+    def operand(o):
+        if "v" in o:
+            return f"t{o['v']}"
+        if "none" in o:
+            return "None"
+        return repr(_lit_value(o))
+
+    def attrval(v):
+        if isinstance(v, dict) and "ref" in v:
+            return v["ref"]
+        return repr(v)
+
+    params = [f"t{i}" for i in f["params"]]
+    for a in sorted(f["attrs"], key=lambda a: a.get("default") is not None):
+        ann = {"f": "float", "i": "int"}[a["type"]]
+        params.append(f"{a['name']}: {ann}" + (f" = {a['default']!r}" if a.get("default") is not None else ""))
+    lines = [f"@script(fdom{idx}, default_opset=op)" if f["kind"] != "script_opb" else "@script(default_opset=op)",
+             f"def {f['name']}({', '.join(params)}):"]
+    for s in f["body"]:
+        outs = ", ".join(f"t{i}" for i in s["outs"])
+        if s["k"] == "op":
+            args = [operand(o) for o in s["ins"]] + [f"{k}={attrval(v)}" for k, v in (s.get("attrs") or {}).items()]
+            if s.get("pyop"):     # python operator form: t = a * 2.0
+                lines.append(f"    {outs} = {operand(s['ins'][0])} {s['pyop']} {operand(s['ins'][1])}")
+            else:
+                lines.append(f"    {outs} = op.{s['op']}({', '.join(args)})")
+        elif s["k"] == "call":
+            g = funcs[s["fn"]]
+            args = [operand(o) for o in s["args"]] + [f"{k}={attrval(v)}" for k, v in (s.get("attrs") or {}).items()]
+            lines.append(f"    {outs} = {g['name']}({', '.join(args)})")
+        else:
+            raise ReplayError("script bodies are straight-line")
+    lines.append("    return " + ", ".join(f"t{i}" for i in f["ret"]))
+    return "\n".join(lines) + "\n"
+
+
+class Driver:
+    """Performs a program on a GraphBuilder.  flip=True swaps call <-> call_inline on every function-call step."""
+
+    def __init__(self, prog, arrays, exclude=(), flip=False):
+        self.prog, self.arr, self.exclude, self.flip = prog, arrays, set(exclude), flip
+        self.opset = prog["opset"]
+        self.vals = {}          # var id -> ir.Value of the main scope (for the inference check)
+        self.uid = 0
+        self.fobjs = {}
+
+    def cut(self, api, fn, *a, **kw):
+        try:
+            return fn(*a, **kw)
+        except CutError:
+            raise
+        except ReplayError:
+            raise
+        except Exception as e:  # noqa: BLE001
+            raise CutError(api, e) from e
+
+    # ---- values
+    def ir_type(self, arr, how="full"):
+        import onnx_ir as ir
+
+        a = np.asarray(arr)
+        t = ir.TensorType(ir.DataType(ENUM[dtn(a)]))
+        if how == "untyped":
+            return None, None
+        if how == "dtype":
+            return t, None
+        return t, ir.Shape(list(a.shape))
+
+    def make_value(self, name, arr, how="full", spec=False):
+        import onnx_ir as ir
+        import onnxscript
+        from onnxscript._internal import builder as B
+
+        a = np.asarray(arr)
+        if how == "untyped":
+            return B.make_value(name) if spec else ir.Value(name=name)
+        if spec and how == "full":   # TypeSpec form FLOAT[2, 3]
+            ts = getattr(onnxscript, dtn(a))
+            return B.make_value(name, ts[tuple(a.shape)] if a.ndim else ts)
+        t, sh = self.ir_type(a, how)
+        return ir.Value(name=name, type=t, shape=sh)
+
+    def conv(self, o, vals):
+        import onnx_ir as ir
+
+        if "v" in o:
+            return vals[o["v"]]
+        if "none" in o:
+            return None
+        if "lit" in o:
+            v = _lit_value(o)
+            return tuple(v) if o.get("tuple") and isinstance(v, list) else v
+        if "tensor" in o:
+            a = optcommon.arr_from_json(o["tensor"])
+            if o.get("as") == "numpy":
+                return a
+            return ir.tensor(a, name=o.get("name"))
+        raise ReplayError(f"operand {o}")
+
+    def attr_value(self, k, v, fdef):
+        import onnx_ir as ir
+
+        if isinstance(v, dict) and "ref" in v:
+            t = next(a["type"] for a in fdef["attrs"] if a["name"] == v["ref"])
+            return ir.RefAttr(k, v["ref"], {"f": ir.AttributeType.FLOAT, "i": ir.AttributeType.INT}[t])
+        if isinstance(v, dict) and "tensor" in v:
+            return ir.tensor(optcommon.arr_from_json(v["tensor"]))
+        return v
+
+    # ---- steps
+    def run_steps(self, op, steps, vals, fdef=None):
+        for s in steps:
+            self.step(op, s, vals, fdef)
+
+    def outputs_kw(self, s, n):
+        import onnx_ir as ir
+
+        m = s.get("omode", "default")
+        if m == "default":
+            return {} if n == 1 else {"_outputs": n}
+        if m == "int":
+            return {"_outputs": n}
+        if m == "names":
+            return {"_outputs": list(s["onames"])}
+        if m == "values":
+            return {"_outputs": [ir.Value(name=x) for x in s["onames"]]}
+        raise ReplayError(m)
+
+    def step(self, op, s, vals, fdef=None):
+        k = s["k"]
+        gb = op.builder
+        if k == "op":
+            args = [self.conv(o, vals) for o in s["ins"]]
+            kw = {n: self.conv(o, vals) for n, o in (s.get("kwins") or {}).items()}
+            attrs = {n: self.attr_value(n, v, fdef) for n, v in (s.get("attrs") or {}).items()}
+            dom = s.get("dom", "")
+            ver = self.opset if dom == "" else 1
+            if s.get("posattr"):
+                args += list(attrs.values())
+                attrs = {}
+            kw.update(attrs)
+            kw.update(self.outputs_kw(s, len(s["outs"])))
+            target = op
+            if s.get("via") == "opset":
+                target = self.cut("GraphBuilder.opset", gb.opset, dom, ver)
+            elif s.get("via") == "domkw":
+                kw["_domain"] = dom
+                kw["_version"] = ver
+            elif s.get("via") == "verkw":
+                kw["_version"] = ver
+            r = self.cut(f"op.{s['op']}", getattr(target, s["op"]), *args, **kw)
+            self.bind(s["outs"], r, vals, f"op.{s['op']}")
+        elif k == "push":
+            self.cut("push_module", gb.push_module, s["name"], s.get("cls", ""))
+        elif k == "pop":
+            self.cut("pop_module", gb.pop_module)
+        elif k == "init":
+            import onnx_ir as ir
+
+            t = ir.tensor(optcommon.arr_from_json(s["arr"]), name=s["name"])
+            if s.get("via") == "op":
+                r = self.cut("op.initializer", op.initializer, t)
+            elif s.get("via") == "rename":
+                r = self.cut("builder.initializer", gb.initializer, ir.tensor(optcommon.arr_from_json(s["arr"]), name="tmp_" + s["name"]), name=s["name"])
+            else:
+                r = self.cut("builder.initializer", gb.initializer, t)
+            vals[s["out"]] = r
+        elif k == "if":
+            tb = self.body_graph(op, s["then"], vals, [], fdef, s.get("api", "subgraph"))
+            eb = self.body_graph(op, s["else"], vals, [], fdef, s.get("api", "subgraph"))
+            kw = self.outputs_kw(s, len(s["outs"]))
+            r = self.cut("op.If", op.If, self.conv(s["cond"], vals), then_branch=tb, else_branch=eb, **kw)
+            self.bind(s["outs"], r, vals, "op.If")
+        elif k == "loop":
+            nc = len(s["init"])
+            carried = [self.arr[o["v"]] for o in s["init"]]
+            b = self.body_graph(op, s["body"], vals, [np.array(0, np.int64), np.array(True, np.bool_)] + carried, fdef, s.get("api", "subgraph"))
+            args = [None if s.get("trip") is None else self.conv(s["trip"], vals), None if s.get("cond") is None else self.conv(s["cond"], vals)]
+            args += [vals[o["v"]] for o in s["init"]]
+            r = self.cut("op.Loop", op.Loop, *args, body=b, **self.outputs_kw(s, len(s["outs"])))
+            self.bind(s["outs"], r, vals, "op.Loop")
+            del nc
+        elif k == "scan":
+            st_ = [self.arr[o["v"]] for o in s["init"]]
+            xs = [np.asarray(self.arr[o["v"]])[0] for o in s["xs"]]
+            b = self.body_graph(op, s["body"], vals, st_ + xs, fdef, s.get("api", "subgraph"))
+            args = [vals[o["v"]] for o in s["init"]] + [vals[o["v"]] for o in s["xs"]]
+            r = self.cut("op.Scan", op.Scan, *args, body=b, num_scan_inputs=len(xs), **self.outputs_kw(s, len(s["outs"])))
+            self.bind(s["outs"], r, vals, "op.Scan")
+        elif k == "call":
+            self.call(op, s, vals)
+        else:
+            raise ReplayError(k)
+
+    def bind(self, outs, r, vals, api):
+        import onnx_ir as ir
+
+        if isinstance(r, ir.Value):
+            r = [r]
+        r = list(r)
+        if len(r) != len(outs) or not all(isinstance(v, ir.Value) for v in r):
+            raise CutError(api, TypeError(f"returned {len(r)} values ({[type(v).__name__ for v in r]}) for {len(outs)} outputs"))
+        for i, v in zip(outs, r):
+            vals[i] = v
+
+    def body_graph(self, op, body, vals, param_arrays, fdef, api):
+        from onnxscript._internal import builder as B
+
+        gb = op.builder
+        ins = [self.make_value(n, a, h, spec=body.get("spec", False)) for n, a, h in zip(body["pnames"], param_arrays, body["ptyped"])]
+        outs = []
+        for n, r, h in zip(body["onames"], body["ret"], body["otyped"]):
+            outs.append(self.make_value(n, self.arr_of_ret(body, r), h, spec=body.get("spec", False)))
+        scope = body.get("scope")
+        if scope is None and "subgraph_autonames" in self.exclude:
+            scope = body["auto_scope"]       # redirected: a unique module scope keeps the auto-generated names apart
+
+        def trace(bop, *params):
+            local = dict(vals)
+            for i, v in zip(body.get("params", []), params):
+                local[i] = v
+            if scope:
+                bop.builder.push_module(scope)
+            self.run_steps(bop, body["steps"], local, fdef)
+            if scope:
+                bop.builder.pop_module()
+            rets = [local[r] for r in body["ret"]]
+            return rets[0] if (len(rets) == 1 and body.get("single_ret", True)) else (tuple(rets) if body.get("ret_tuple") else rets)
+
+        if api == "build_graph":
+            return self.cut("build_graph", B.build_graph, trace, ins, outs, opset_imports=dict(gb.graph.opset_imports), name=body["name"], parent=gb)
+        return self.cut("GraphBuilder.subgraph", gb.subgraph, trace, ins, outs, name=body["name"])
+
+    def arr_of_ret(self, body, r):
+        return body["_ret_arrays"][r] if "_ret_arrays" in body else self.arr[r]
+
+    # ---- functions
+    def function(self, idx, op):
+        if idx in self.fobjs:
+            return self.fobjs[idx]
+        import onnx_ir as ir
+        import onnxscript
+        from onnxscript._internal import builder as B
+
+        from vf import scriptgen
+
+        f = self.prog["funcs"][idx]
+        if f["kind"] in ("script", "script_opb"):
+            g = {f"fdom{idx}": onnxscript.values.Opset(f["domain"], 1)}
+            for s in f["body"]:
+                if s["k"] == "call":
+                    callee = self.prog["funcs"][s["fn"]]
+                    g[callee["name"]] = self.function(s["fn"], op)
+            if f["kind"] == "script_opb":
+                g["op"] = op
+            src = func_source(f, idx, self.prog["funcs"])
+            try:
+                mod = scriptgen.compile_source(src, self.opset, g)
+            except Exception as e:  # noqa: BLE001  (the converter is C01/C02's subject, not this property's)
+                raise ReplayError(f"script compile: {type(e).__name__}: {str(e)[:200]}") from None
+            obj = getattr(mod, f["name"])
+        else:
+            ins = [B.make_value(f"p{i}") if not f.get("typed") else self.make_value(f"p{i}", a, "dtype") for i, a in zip(f["params"], self.frec[f["name"]])]
+            attrs = [ir.Attr(a["name"], {"f": ir.AttributeType.FLOAT, "i": ir.AttributeType.INT}[a["type"]], a.get("default")) for a in f["attrs"]]
+            if f.get("attrs_as") == "dict":
+                attrs = {a.name: a for a in attrs}
+
+            def trace(fop, *params):
+                local = {i: v for i, v in zip(f["params"], params)}
+                self.run_steps(fop, f["body"], local, f)
+                rets = [local[r] for r in f["ret"]]
+                return rets[0] if len(rets) == 1 else rets
+
+            obj = self.cut("build_function", B.build_function, trace, ins, domain=f["domain"], name=f["name"], attributes=attrs or None,
+                           opset_imports={"": self.opset})
+        self.fobjs[idx] = obj
+        return obj
+
+    def call(self, op, s, vals):
+        import onnx_ir as ir
+
+        f = self.prog["funcs"][s["fn"]]
+        fn = self.function(s["fn"], op)
+        mode = s["mode"]
+        if self.flip:
+            mode = "inline" if mode == "call" else "call"
+        args = [self.conv(o, vals) for o in s["args"]]
+        given = dict(s.get("attrs") or {})
+        form = s.get("aform", "py")
+        if mode == "inline":
+            if "inline_default_attr" in self.exclude:
+                for a in f["attrs"]:
+                    if a["name"] not in given and a.get("default") is not None:
+                        given[a["name"]] = a["default"]
+            if "inline_py_attr" in self.exclude:
+                form = "attr"
+        if form == "attr":
+            tp = {a["name"]: a["type"] for a in f["attrs"]}
+            given = {k: (ir.AttrFloat32(k, v) if tp[k] == "f" else ir.AttrInt64(k, v)) for k, v in given.items()}
+        kw = dict(given)
+        m = s.get("omode", "default")
+        if m == "names":
+            kw["_outputs"] = list(s["onames"])
+        elif m == "int" and mode == "call":
+            kw["_outputs"] = len(s["outs"])
+        if mode == "inline" and s.get("prefix"):
+            kw["_prefix"] = s["prefix"]
+        if mode == "call":
+            r = self.cut("op.call", op.call, fn, *args, **kw)
+        else:
+            r = self.cut("op.call_inline", op.call_inline, fn, *args, **kw)
+        self.bind(s["outs"], r, vals, "op." + ("call" if mode == "call" else "call_inline"))
+
+    # ---- whole program
+    def build(self):
+        import onnx_ir as ir
+        from onnxscript._internal import builder as B
+
+        prog = self.prog
+        imports = {"": self.opset}
+        for s in prog_steps(prog):
+            if s["k"] == "op" and s.get("dom"):
+                imports[s["dom"]] = 1
+        for f in prog.get("funcs", []):
+            imports["this" if f["kind"] == "script_opb" else f["domain"]] = 1
+        graph = ir.Graph(name="trace", inputs=[], outputs=[], nodes=[], opset_imports=imports)
+        gb = self.cut("GraphBuilder", B.GraphBuilder, graph)
+        op = gb.op
+        vals = self.vals
+        for inp in prog["inputs"]:
+            a = self.arr[inp["id"]]
+            if inp.get("via") == "value":
+                v = self.make_value(inp["name"], a)
+                graph.inputs.append(v)
+            else:
+                v = self.cut("GraphBuilder.input", gb.input, inp["name"], ir.DataType(ENUM[dtn(a)]), list(np.asarray(a).shape))
+            vals[inp["id"]] = v
+        self.run_steps(op, prog["steps"], vals)
+        self.inferred = []
+        for i, v in vals.items():
+            a = np.asarray(self.arr[i])
+            if v.type is not None and hasattr(v.type, "dtype") and int(v.type.dtype) != ENUM[dtn(a)]:
+                self.inferred.append((i, f"value '{v.name}': builder type {v.type} but the trace computes {a.dtype}"))
+            elif v.shape is not None:
+                dims = list(v.shape)
+                if len(dims) != a.ndim or any(isinstance(d, int) and d != n for d, n in zip(dims, a.shape)):
+                    self.inferred.append((i, f"value '{v.name}': builder shape {v.shape} but the trace computes {list(a.shape)}"))
+        for n, i in enumerate(prog["outputs"]):
+            v = vals[i]
+            a = np.asarray(self.arr[i])
+            if prog.get("out_via") == "append":
+                v.name = f"y{n}"
+                graph.outputs.append(v)
+            else:
+                self.cut("GraphBuilder.add_output", gb.add_output, v, f"y{n}")
+            if v.type is None:
+                v.type = ir.TensorType(ir.DataType(ENUM[dtn(a)]))
+            if v.shape is None:
+                v.shape = ir.Shape([None] * a.ndim)
+        self.graph, self.gb = graph, gb
+        funcs = list(gb.functions.values())
+        model = ir.Model(graph, ir_version=10, functions=funcs)
+        return self.cut("serialize_model", ir.serde.serialize_model, model)
+
+
+# =====================================================================================================================
+# part (a): program generator (by concrete execution)
+# =====================================================================================================================
+F_POOL = [-3.0, -2.0, -1.5, -1.0, -0.5, 0.0, 0.25, 0.5, 1.0, 1.5, 2.0, 3.0, 4.0]
+I_POOL = [-3, -2, -1, 0, 1, 2, 3, 4, 5]
+SHAPES = [(), (1,), (2,), (3,), (4,), (2, 3), (3, 2), (1, 3), (2, 2), (3, 1), (2, 1, 3), (2, 3, 2), (1, 2, 2), (5,), (2, 5)]
+UNARY_F = ["Relu", "Sigmoid", "Tanh", "Abs", "Neg", "Exp", "Sqrt", "Floor", "Ceil", "Erf", "Sign", "Reciprocal", "Identity", "Sin", "Cos",
+           "Softsign", "Round", "Selu"]
+UNARY_I = ["Abs", "Neg", "Identity", "Sign"]
+UNARY_ATTR = {"LeakyRelu": {"alpha": [0.1, 0.5, 0.25]}, "Elu": {"alpha": [0.5, 2.0]}, "HardSigmoid": {"alpha": [0.5, 0.25], "beta": [0.25, 0.5]},
+              "ThresholdedRelu": {"alpha": [0.5, 1.5]}, "Celu": {"alpha": [0.5, 2.0]}}
+BINARY_F = ["Add", "Sub", "Mul", "Div", "Add", "Mul", "Pow", "PRelu"]
+BINARY_I = ["Add", "Sub", "Mul"]
+PYOP = {"Add": "+", "Sub": "-", "Mul": "*", "Div": "/"}
+COMPARE = ["Less", "Greater", "Equal", "LessOrEqual", "GreaterOrEqual"]
+
+
+class TraceGen:
+    def __init__(self, draw, exclude, note):
+        self.draw, self.ex, self.note = draw, set(exclude), note
+        self.nid = 0
+        self.uid = 0
+        self.opset = draw(st.sampled_from([18, 19, 20, 21, 21, 22, 23]))
+        self.prog = {"opset": self.opset, "inputs": [], "funcs": [], "steps": [], "outputs": [], "out_via": draw(st.sampled_from(["add_output", "add_output", "append"]))}
+        self.interp = Interp(self.prog)
+        self.env = {}
+        self.cur = self.prog["steps"]
+        self.feat = set()
+        self.depth = 0
+        self.fmode = None          # function-body mode: dict(attrs=[...], values={}, kind=...)
+        self.local = None          # ids produced inside the current body (bodies return values produced inside)
+        self.dropped = 0
+        self.scopes = 0
+
+    # ---- small helpers
+    def d(self, strat):
+        return self.draw(strat)
+
+    def chance(self, num, den=10):
+        return self.d(st.integers(0, den - 1)) < num
+
+    def fresh(self):
+        self.nid += 1
+        return self.nid
+
+    def uname(self, p):
+        self.uid += 1
+        return f"{p}{self.uid}"
+
+    def region(self, name):
+        """True if the generator may enter the named region; counts the redirect otherwise."""
+        if name in self.ex:
+            self.note(name)
+            return False
+        return True
+
+    def cands(self, pred):
+        return [i for i, a in self.env.items() if pred(np.asarray(a))]
+
+    def pick(self, pred):
+        c = self.cands(pred)
+        if not c:
+            return None
+        c.sort()
+        k = self.d(st.integers(0, min(len(c), 6) - 1)) if self.chance(7) else self.d(st.integers(0, len(c) - 1))
+        return c[-1 - k] if k < len(c) else c[0]
+
+    @staticmethod
+    def is_f(a):
+        return a.dtype in (np.float32, np.float64)
+
+    @staticmethod
+    def is_f32(a):
+        return a.dtype == np.float32
+
+    @staticmethod
+    def is_num(a):
+        return a.dtype in (np.float32, np.float64, np.int64, np.int32)
+
+    def like(self, a):
+        """A different visible value with the same dtype and a broadcast-compatible simple shape."""
+        a = np.asarray(a)
+        return self.pick(lambda b: b.dtype == a.dtype and (b.shape == a.shape or b.shape == () or (a.ndim >= 1 and b.shape == a.shape[-1:])))
+
+    # ---- literals
+    def scalar_lit(self, kind):
+        if kind == "b":
+            self.feat.add("lit:bool")
+            return self.d(st.booleans())
+        if kind == "i":
+            if not self.fmode and self.chance(1, 12):
+                self.feat.add("lit:bool-for-int")
+                return self.d(st.booleans())
+            self.feat.add("lit:int")
+            return self.d(st.sampled_from(I_POOL))
+        r = self.d(st.integers(0, 19))
+        if self.fmode:
+            r %= 15      # function bodies (script source text): finite int/float literals only
+        if r < 9:
+            self.feat.add("lit:float")
+            return self.d(st.sampled_from([0.0, 1.0, -1.0, 0.5, 2.0, -2.5, 3.0, 0.25, 100.0, 0.001, 0.1]))
+        if r < 15:
+            self.feat.add("lit:int-for-float")
+            return self.d(st.sampled_from([0, 1, 2, -1, 3]))
+        if r == 15:
+            self.feat.add("lit:bool-for-float")
+            return True
+        if r == 16:
+            self.feat.add("lit:inf")
+            return self.d(st.sampled_from(["inf", "-inf"]))
+        if r == 17 and self.region("nan_literal"):
+            self.feat.add("lit:nan")
+            return "nan"
+        if r == 18 and self.region("negzero_literal"):
+            self.feat.add("lit:-0.0")
+            return "-0.0"
+        self.feat.add("lit:float")
+        return 1.5
+
+    def literal(self, kind, n=None):
+        """Operand dict for a Python literal: a scalar, or a list/tuple of n homogeneous scalars."""
+        if not n or self.chance(6):          # (an empty list is not a "list of homogeneous scalars")
+            return {"lit": self.scalar_lit(kind)}
+        if kind == "b":
+            vals = [self.d(st.booleans()) for _ in range(n)]
+        elif kind == "i" or self.chance(3):
+            vals = [self.d(st.sampled_from(I_POOL)) for _ in range(n)]
+            self.feat.add("lit:list-int" + ("" if kind == "i" else "-for-float"))
+        else:
+            vals = [self.d(st.sampled_from([0.0, 1.0, -1.0, 0.5, 2.0, -2.5, 0.25])) for _ in range(n)]
+            self.feat.add("lit:list-float")
+        o = {"lit": vals}
+        if n >= 5:
+            self.feat.add("lit:list-long")
+        if self.chance(3):
+            o["tuple"] = True
+            self.feat.add("lit:tuple")
+        return o
+
+    def int_list(self, vals):
+        o = {"lit": [int(v) for v in vals]}
+        self.feat.add("lit:list-int")
+        if self.chance(3):
+            o["tuple"] = True
+            self.feat.add("lit:tuple")
+        return o
+
+    @staticmethod
+    def kind_of(a):
+        a = np.asarray(a)
+        return "b" if a.dtype == np.bool_ else "i" if a.dtype.kind == "i" else "f"
+
+    # ---- emitting
+    def emit(self, s):
+        try:
+            self.interp.step(s, self.env, self.fmode["values"] if self.fmode else None)
+        except ReplayError:
+            self.dropped += 1
+            return False
+        except Exception:  # noqa: BLE001  (numpy overflow etc. inside a kernel)
+            self.dropped += 1
+            return False
+        outs = s.get("outs", [s["out"]] if "out" in s else [])
+        for i in outs:
+            a = np.asarray(self.env[i])
+            if a.size > 400 or a.dtype not in NAME_OF or a.ndim > 4:
+                for j in outs:
+                    self.env.pop(j, None)
+                self.dropped += 1
+                return False
+        self.cur.append(s)
+        if self.local is not None and s["k"] != "init":   # initializers live in the root graph: not "produced inside" a body
+            self.local.extend(outs)
+        return True
+
+    def op_step(self, op, ins, attrs=None, nout=1, kwins=None, dom="", decorate=True):
+        s = {"k": "op", "op": op, "ins": ins, "outs": [self.fresh() for _ in range(nout)]}
+        if attrs:
+            s["attrs"] = attrs
+        if kwins:
+            s["kwins"] = kwins
+        if dom:
+            s["dom"] = dom
+        if self.fmode:
+            self.func_attr_refs(s)
+            return s
+        if not decorate:
+            return s
+        r = self.d(st.integers(0, 19))
+        if nout == 1:
+            if r < 3:
+                s["omode"], s["onames"] = "names", [self.uname("o")]
+            elif r < 5:
+                s["omode"], s["onames"] = "values", [self.uname("o")]
+            elif r == 5:
+                s["omode"] = "int"
+        else:
+            if r < 5:
+                s["omode"], s["onames"] = "names", [self.uname("o") for _ in range(nout)]
+            elif r < 8:
+                s["omode"], s["onames"] = "values", [self.uname("o") for _ in range(nout)]
+        if "omode" in s:
+            self.feat.add("outputs:" + s["omode"])
+        if dom:
+            s["via"] = self.d(st.sampled_from(["domkw", "opset"]))
+        else:
+            v = self.d(st.integers(0, 19))
+            if v < 3:
+                s["via"] = ["verkw", "domkw", "opset"][v]
+        if "via" in s:
+            self.feat.add("via:" + s["via"])
+        return s
+
+    def add(self, op, ins, attrs=None, nout=1, kwins=None, dom="", decorate=True):
+        s = self.op_step(op, ins, attrs, nout, kwins, dom, decorate)
+        if self.emit(s):
+            self.feat.add("op:" + op)
+            return s["outs"]
+        return None
+
+    def func_attr_refs(self, s):
+        """Inside a function body: turn a concrete attribute into a reference to a function attribute parameter."""
+        fm = self.fmode
+        for k, v in list((s.get("attrs") or {}).items()):
+            if isinstance(v, bool) or not isinstance(v, (int, float)) or not self.chance(6):
+                continue
+            t = "f" if isinstance(v, float) else "i"
+            same = [a for a in fm["attrs"] if a["type"] == t and fm["values"][a["name"]] == v]
+            if same:
+                s["attrs"][k] = {"ref": same[0]["name"]}
+            elif len(fm["attrs"]) < 2:
+                name = f"{'alpha' if t == 'f' else 'axis'}{len(fm['attrs'])}"
+                dflt = self.d(st.sampled_from([None, "same", "other"]))
+                default = None if dflt is None else v if dflt == "same" else (v + 1 if t == "i" else float(np.float32(v * 0.5 + 0.125)))
+                fm["attrs"].append({"name": name, "type": t, "default": default})
+                fm["values"][name] = v
+                s["attrs"][k] = {"ref": name}
+
+    # ---- op handlers: each returns True when it emitted something
+    def g_unary(self):
+        if self.chance(8):
+            x = self.pick(self.is_f)
+            ops = UNARY_F
+        else:
+            x = self.pick(lambda a: a.dtype == np.int64)
+            ops = UNARY_I
+        if x is None:
+            return False
+        if not self.fmode and self.chance(1, 15):   # a literal as the only operand: default dtype
+            lit = self.literal("f" if self.chance(5) else "i", self.d(st.sampled_from([None, 2, 3])))
+            flat = lit["lit"] if isinstance(lit["lit"], list) else [lit["lit"]]
+            if any(isinstance(v, bool) for v in flat):
+                return False      # Abs/Neg are not defined on bool tensors
+            return bool(self.add(self.d(st.sampled_from(["Abs", "Neg", "Identity"])), [lit]))
+        return bool(self.add(self.d(st.sampled_from(ops)), [{"v": x}]))
+
+    def g_unary_attr(self):
+        x = self.pick(self.is_f32)
+        if x is None:
+            return False
+        op = self.d(st.sampled_from(sorted(UNARY_ATTR)))
+        attrs = {k: self.d(st.sampled_from(v)) for k, v in UNARY_ATTR[op].items() if self.chance(8)}
+        s = self.op_step(op, [{"v": x}], attrs)
+        if not self.fmode and len(attrs) == 1 and op in ("LeakyRelu", "Elu", "ThresholdedRelu", "Celu") and self.chance(2):
+            s["posattr"] = True
+            self.feat.add("attr:positional")
+        return self.emit(s) and (self.feat.add("op:" + op) or True)
+
+    def g_softmax(self):
+        x = self.pick(lambda a: a.dtype == np.float32 and a.ndim >= 1)
+        if x is None:
+            return False
+        nd = np.asarray(self.env[x]).ndim
+        attrs = {"axis": self.d(st.integers(-nd, nd - 1))} if self.chance(7) else {}
+        s = self.op_step(self.d(st.sampled_from(["Softmax", "LogSoftmax"])), [{"v": x}], attrs)
+        if attrs and not self.fmode and self.chance(2):
+            s["posattr"] = True
+            self.feat.add("attr:positional")
+        return self.emit(s) and (self.feat.add("op:Softmax") or True)
+
+    def g_binary(self):
+        x = self.pick(lambda a: self.is_num(a) and a.dtype != np.int32)
+        if x is None:
+            return False
+        a = np.asarray(self.env[x])
+        kind = self.kind_of(a)
+        op = self.d(st.sampled_from(BINARY_F if kind == "f" else BINARY_I))
+        if a.dtype == np.float64 and op in ("PRelu", "Pow"):
+            op = "Mul"
+        r = self.d(st.integers(0, 9))
+        y = self.like(a) if r < 4 else None
+        if y is not None:
+            other = {"v": y}
+        elif op == "Pow":
+            other = {"lit": self.d(st.sampled_from([2.0, 0.5, 1.0, 3.0]))}   # exponent has its own type variable: float literal -> FLOAT
+            self.feat.add("lit:float")
+        else:
+            other = self.literal(kind, a.shape[-1] if a.ndim else None)
+        ins = [{"v": x}, other]
+        if op != "PRelu" and op != "Pow" and self.chance(4):
+            ins.reverse()
+            if "lit" in ins[0]:
+                self.feat.add("lit:first-operand")
+        s = self.op_step(op, ins)
+        if self.fmode and self.fmode["kind"] != "built" and op in PYOP and self.chance(5) and "lit" in other and not isinstance(other["lit"], list) and "v" in ins[0]:
+            s["pyop"] = PYOP[op]
+        return self.emit(s) and (self.feat.add("op:" + op) or True)
+
+    def g_variadic(self):
+        x = self.pick(self.is_f32)
+        if x is None:
+            return False
+        a = np.asarray(self.env[x])
+        op = self.d(st.sampled_from(["Min", "Max", "Sum", "Mean", "Max", "Min"]))
+        ins = [{"v": x}]
+        lit_ok = not self.fmode or self.fmode["kind"] == "built"
+        for _ in range(self.d(st.integers(0, 2))):
+            y = self.like(a) if (self.chance(5) or not lit_ok) else None
+            if y is None and not lit_ok:
+                continue
+            ins.append({"v": y} if y is not None else self.literal("f", a.shape[-1] if a.ndim else None))
+        if self.chance(3):
+            ins.reverse()
+        return bool(self.add(op, ins))
+
+    def g_compare(self):
+        x = self.pick(lambda a: a.dtype in (np.float32, np.int64))
+        if x is None:
+            return False
+        a = np.asarray(self.env[x])
+        y = self.like(a) if self.chance(4) else None
+        other = {"v": y} if y is not None else self.literal(self.kind_of(a), a.shape[-1] if a.ndim else None)
+        ins = [{"v": x}, other]
+        if self.chance(3):
+            ins.reverse()
+        return bool(self.add(self.d(st.sampled_from(COMPARE)), ins))
+
+    def g_logic(self):
+        x = self.pick(lambda a: a.dtype == np.bool_)
+        if x is None:
+            return False
+        a = np.asarray(self.env[x])
+        if self.chance(3):
+            return bool(self.add("Not", [{"v": x}]))
+        y = self.like(a) if self.chance(5) else None
+        other = {"v": y} if y is not None else self.literal("b", a.shape[-1] if a.ndim else None)
+        return bool(self.add(self.d(st.sampled_from(["And", "Or", "Xor"])), [{"v": x}, other]))
+
+    def g_where(self):
+        x = self.pick(lambda a: a.dtype in (np.float32, np.int64))
+        if x is None:
+            return False
+        a = np.asarray(self.env[x])
+        c = self.pick(lambda b: b.dtype == np.bool_ and (b.shape == a.shape or b.shape == ()))
+        cond = {"v": c} if c is not None and self.chance(8) else self.literal("b", a.shape[-1] if a.ndim else None)
+        y = self.like(a) if self.chance(4) else None
+        other = {"v": y} if y is not None else self.literal(self.kind_of(a), a.shape[-1] if a.ndim else None)
+        ins = [cond, {"v": x}, other] if self.chance(6) else [cond, other, {"v": x}]
+        return bool(self.add("Where", ins))
+
+    def g_clip(self):
+        x = self.pick(lambda a: a.dtype in (np.float32, np.int64))
+        if x is None:
+            return False
+        k = self.kind_of(self.env[x])
+        lo, hi = ({"lit": -1}, {"lit": 2}) if k == "i" else ({"lit": self.d(st.sampled_from([-1.0, 0.0, -1, 0, 0.5]))}, {"lit": self.d(st.sampled_from([2.0, 1, 6, 1.5]))})
+        self.feat.add("lit:int" if k == "i" else "lit:float")
+        form = self.d(st.integers(0, 5))
+        if form == 0:
+            return bool(self.add("Clip", [{"v": x}, lo, hi]))
+        if form == 1:
+            self.feat.add("operand:None")
+            return bool(self.add("Clip", [{"v": x}, {"none": 1}, hi]))
+        if form == 2:
+            return bool(self.add("Clip", [{"v": x}, lo]))
+        if form == 3:
+            self.feat.add("inputs:keyword")
+            return bool(self.add("Clip", [{"v": x}], kwins={"min": lo, "max": hi}))
+        if form == 4:
+            self.feat.add("inputs:keyword")
+            return bool(self.add("Clip", [{"v": x}], kwins={"min": lo}))
+        if self.region("kw_input_after_gap"):
+            self.feat.add("inputs:keyword-after-gap")
+            return bool(self.add("Clip", [{"v": x}], kwins={"max": hi}))
+        self.feat.add("operand:None")
+        return bool(self.add("Clip", [{"v": x}, {"none": 1}, hi]))
+
+    def g_cast(self):
+        x = self.pick(lambda a: True)
+        if x is None:
+            return False
+        a = np.asarray(self.env[x])
+        if a.dtype.kind == "f" and not np.all(np.isfinite(a)):
+            return False
+        if self.chance(7):
+            to = self.d(st.sampled_from(["FLOAT", "FLOAT", "INT64", "DOUBLE", "INT32", "BOOL"]))
+            if a.dtype.kind == "f" and to in ("INT64", "INT32") and (np.abs(a).max(initial=0) > 1e6 or not np.array_equal(a, np.trunc(a))):
+                to = "DOUBLE"      # float->int of fractions / huge values differs between runtimes
+            return bool(self.add("Cast", [{"v": x}], {"to": ENUM[to]}))
+        y = self.pick(lambda b: b.dtype in (np.float32, np.float64, np.int64) and b.dtype != a.dtype)
+        if a.dtype.kind == "f" and not np.array_equal(a, np.trunc(a)):
+            tgt = self.literal("f") if y is None or np.asarray(self.env[y]).dtype.kind != "f" else {"v": y}
+        else:
+            tgt = {"v": y} if y is not None and self.chance(6) else self.literal(self.d(st.sampled_from(["f", "i"])))
+        if "lit" in tgt and isinstance(tgt["lit"], str):
+            tgt = {"lit": 1.0}
+        return bool(self.add("CastLike", [{"v": x}, tgt]))
+
+    def g_reshape(self):
+        x = self.pick(lambda a: a.size >= 1 and a.ndim >= 1)
+        if x is None:
+            return False
+        a = np.asarray(self.env[x])
+        n = a.size
+        divs = [k for k in (1, 2, 3, 4, 5, 6) if n % k == 0]
+        k = self.d(st.sampled_from(divs))
+        shape = self.d(st.sampled_from([[k, -1], [-1, k], [n], [-1], [1, n], [0, -1], [k, n // k]]))
+        attrs = {"allowzero": 0} if self.chance(1) else {}
+        return bool(self.add("Reshape", [{"v": x}, self.int_list(shape)], attrs))
+
+    def g_transpose(self):
+        x = self.pick(lambda a: a.ndim >= 2)
+        if x is None:
+            return False
+        nd = np.asarray(self.env[x]).ndim
+        perm = self.d(st.permutations(list(range(nd))))
+        if self.chance(2):
+            return bool(self.add("Transpose", [{"v": x}]))
+        s = self.op_step("Transpose", [{"v": x}], {"perm": list(perm)})
+        if not self.fmode and self.chance(3):
+            s["posattr"] = True
+            self.feat.add("attr:positional")
+        return self.emit(s) and (self.feat.add("op:Transpose") or True)
+
+    def g_unsqueeze(self):
+        x = self.pick(lambda a: a.ndim <= 2)
+        if x is None:
+            return False
+        a = np.asarray(self.env[x])
+        if self.chance(6) or 1 not in a.shape:
+            ax = self.d(st.integers(-(a.ndim + 1), a.ndim))
+            return bool(self.add("Unsqueeze", [{"v": x}, self.int_list([ax])]))
+        ax = [i for i, d_ in enumerate(a.shape) if d_ == 1][0]
+        if self.chance(3):
+            return bool(self.add("Squeeze", [{"v": x}]))
+        return bool(self.add("Squeeze", [{"v": x}, self.int_list([ax])]))
+
+    def g_concat(self):
+        x = self.pick(lambda a: a.ndim >= 1)
+        if x is None:
+            return False
+        a = np.asarray(self.env[x])
+        ax = self.d(st.integers(-a.ndim, a.ndim - 1))
+        ins = [{"v": x}]
+        for _ in range(self.d(st.integers(1, 2))):
+            y = self.pick(lambda b: b.dtype == a.dtype and b.ndim == a.ndim and all(p == q or i == ax % a.ndim for i, (p, q) in enumerate(zip(a.shape, b.shape))))
+            if y is not None and self.chance(7):
+                ins.append({"v": y})
+            elif a.ndim == 1 and a.dtype in (np.float32, np.int64) and not self.fmode:
+                o = self.literal(self.kind_of(a), self.d(st.integers(1, 3)))
+                if not isinstance(o["lit"], list):
+                    o = {"lit": [o["lit"]]} if not isinstance(o["lit"], str) else {"lit": [1.0]}
+                ins.append(o)
+        if len(ins) == 1 and self.chance(7):
+            ins.append({"v": x})
+        return bool(self.add("Concat", ins, {"axis": ax}))
+
+    def g_split(self):
+        x = self.pick(lambda a: a.ndim >= 1 and max(a.shape) >= 2)
+        if x is None:
+            return False
+        a = np.asarray(self.env[x])
+        ax = max(range(a.ndim), key=lambda i: a.shape[i])
+        n = a.shape[ax]
+        if self.chance(5):
+            k = self.d(st.sampled_from([k for k in (2, 3) if k <= n]))
+            return bool(self.add("Split", [{"v": x}], {"num_outputs": k, "axis": ax}, nout=k))
+        c = self.d(st.integers(1, n - 1))
+        return bool(self.add("Split", [{"v": x}, self.int_list([c, n - c])], {"axis": ax} if ax or self.chance(5) else {}, nout=2))
+
+    def g_slice(self):
+        x = self.pick(lambda a: a.ndim >= 1 and a.size >= 2)
+        if x is None:
+            return False
+        a = np.asarray(self.env[x])
+        ax = self.d(st.integers(0, a.ndim - 1))
+        n = a.shape[ax]
+        st_ = self.d(st.integers(-n, n - 1)) if n else 0
+        en = self.d(st.sampled_from([n, n - 1, 100, -1, st_ + 1]))
+        parts = {"starts": self.int_list([st_]), "ends": self.int_list([en]), "axes": self.int_list([ax])}
+        if self.chance(3):
+            parts["steps"] = self.int_list([self.d(st.sampled_from([1, 2, -1]))])
+        order = ["starts", "ends", "axes", "steps"]
+        form = self.d(st.integers(0, 3))
+        if form == 0 or self.fmode:
+            return bool(self.add("Slice", [{"v": x}] + [parts[k] for k in order if k in parts]))
+        self.feat.add("inputs:keyword")
+        if form == 1:
+            keys = self.d(st.permutations([k for k in order if k in parts]))
+            return bool(self.add("Slice", [{"v": x}], kwins={k: parts[k] for k in keys}))
+        if form == 2:
+            return bool(self.add("Slice", [{"v": x}, parts["starts"], parts["ends"]], kwins={k: parts[k] for k in order[2:] if k in parts}))
+        if "steps" in parts and self.region("kw_input_after_gap") and ax == 0:
+            self.feat.add("inputs:keyword-after-gap")
+            return bool(self.add("Slice", [{"v": x}, parts["starts"], parts["ends"]], kwins={"steps": parts["steps"]}))
+        return bool(self.add("Slice", [{"v": x}], kwins={k: parts[k] for k in order if k in parts}))
+
+    def g_gather(self):
+        x = self.pick(lambda a: a.ndim >= 1)
+        if x is None:
+            return False
+        a = np.asarray(self.env[x])
+        ax = self.d(st.integers(0, a.ndim - 1))
+        n = a.shape[ax]
+        idx = {"lit": self.d(st.integers(-n, n - 1))} if self.chance(5) else self.int_list([self.d(st.integers(0, n - 1)) for _ in range(self.d(st.integers(1, 3)))])
+        self.feat.add("lit:int")
+        return bool(self.add("Gather", [{"v": x}, idx], {"axis": ax} if ax or self.chance(5) else {}))
+
+    def g_expand_tile(self):
+        x = self.pick(lambda a: a.size <= 12)
+        if x is None:
+            return False
+        a = np.asarray(self.env[x])
+        if self.chance(5):
+            shape = [self.d(st.sampled_from([1, 2])), *[d_ if d_ != 1 or self.chance(5) else 2 for d_ in a.shape]]
+            return bool(self.add("Expand", [{"v": x}, self.int_list(shape)]))
+        if a.ndim == 0:
+            return False
+        return bool(self.add("Tile", [{"v": x}, self.int_list([self.d(st.sampled_from([1, 2])) for _ in range(a.ndim)])]))
+
+    def g_shape_ops(self):
+        x = self.pick(lambda a: True)
+        if x is None:
+            return False
+        a = np.asarray(self.env[x])
+        r = self.d(st.integers(0, 3))
+        if r == 0:
+            attrs = {"start": self.d(st.integers(0, a.ndim))} if a.ndim and self.chance(3) else {}
+            return bool(self.add("Shape", [{"v": x}], attrs))
+        if r == 1:
+            return bool(self.add("Size", [{"v": x}]))
+        if r == 2 and a.ndim >= 1:
+            s = self.op_step("Flatten", [{"v": x}], {"axis": self.d(st.integers(0, a.ndim))})
+            if not self.fmode and self.chance(3):
+                s["posattr"] = True
+                self.feat.add("attr:positional")
+            return self.emit(s) and (self.feat.add("op:Flatten") or True)
+        if a.dtype == np.float32 and a.ndim >= 1:
+            return bool(self.add("ArgMax", [{"v": x}], {"axis": self.d(st.integers(0, a.ndim - 1)), "keepdims": self.d(st.integers(0, 1))}))
+        return False
+
+    def g_reduce(self):
+        x = self.pick(lambda a: a.dtype in (np.float32, np.int64) and a.ndim >= 1 and a.size >= 1)
+        if x is None:
+            return False
+        a = np.asarray(self.env[x])
+        op = self.d(st.sampled_from(["ReduceSum", "ReduceSum", "ReduceMax", "ReduceMean", "ReduceMin"]))
+        if a.dtype == np.int64 and op == "ReduceMean":
+            op = "ReduceSum"
+        attrs = {"keepdims": self.d(st.integers(0, 1))} if self.chance(7) else {}
+        if self.chance(3):
+            return bool(self.add(op, [{"v": x}], attrs))
+        axes = sorted(set(self.d(st.lists(st.integers(-a.ndim, a.ndim - 1), min_size=1, max_size=2))))
+        if len({ax % a.ndim for ax in axes}) != len(axes):
+            axes = axes[:1]
+        if self.chance(2) and not self.fmode:
+            self.feat.add("inputs:keyword")
+            return bool(self.add(op, [{"v": x}], attrs, kwins={"axes": self.int_list(axes)}))
+        return bool(self.add(op, [{"v": x}, self.int_list(axes)], attrs))
+
+    def g_cumsum_topk(self):
+        x = self.pick(lambda a: a.dtype == np.float32 and a.ndim >= 1 and a.shape[-1] >= 1)
+        if x is None:
+            return False
+        a = np.asarray(self.env[x])
+        if self.chance(5):
+            self.feat.add("lit:int")
+            attrs = {k: 1 for k in ("exclusive", "reverse") if self.chance(2)}
+            return bool(self.add("CumSum", [{"v": x}, {"lit": self.d(st.integers(-a.ndim, a.ndim - 1))}], attrs))
+        if len(set(a.reshape(-1, a.shape[-1])[0].tolist())) != a.shape[-1] or not np.all(np.isfinite(a)):
+            return False     # ties make the index output implementation-defined
+        for row in a.reshape(-1, a.shape[-1]):
+            if len(set(row.tolist())) != len(row):
+                return False
+        k = self.d(st.integers(1, a.shape[-1]))
+        return bool(self.add("TopK", [{"v": x}, self.int_list([k])], {"largest": 0} if self.chance(3) else {}, nout=2))
+
+    def g_matmul(self):
+        x = self.pick(lambda a: a.dtype == np.float32 and a.ndim == 2)
+        if x is None:
+            return False
+        a = np.asarray(self.env[x])
+        if not np.all(np.isfinite(a)) or np.abs(a).max(initial=0) > 1e4:
+            return False
+        y = self.pick(lambda b: b.dtype == np.float32 and b.ndim == 2 and b.shape[0] == a.shape[1] and np.all(np.isfinite(b)) and np.abs(b).max(initial=0) < 1e4)
+        if y is not None and self.chance(5):
+            return bool(self.add("MatMul", [{"v": x}, {"v": y}]))
+        t = self.add("Transpose", [{"v": x}], decorate=False)
+        if not t:
+            return False
+        r = self.d(st.integers(0, 3))
+        attrs = {k: v for k, v in (("alpha", 0.5), ("beta", 2.0)) if self.chance(4)}
+        if r == 0:
+            return bool(self.add("Gemm", [{"v": x}, {"v": t[0]}], attrs))
+        if r == 1:
+            self.feat.add("operand:None")
+            return bool(self.add("Gemm", [{"v": x}, {"v": t[0]}, {"none": 1}], attrs))
+        if r == 2:
+            return bool(self.add("Gemm", [{"v": x}, {"v": t[0]}, self.literal("f", a.shape[0])], attrs))
+        return bool(self.add("Gemm", [{"v": x}, {"v": x}, self.literal("f")], dict(attrs, transB=1)))
+
+    def g_creation(self):
+        r = self.d(st.integers(0, 4))
+        if r == 0:
+            self.feat.add("lit:all-operands")
+            if self.chance(6):
+                self.feat.add("lit:int")
+                return bool(self.add("Range", [{"lit": self.d(st.integers(0, 2))}, {"lit": self.d(st.integers(3, 5))}, {"lit": self.d(st.sampled_from([1, 2]))}]))
+            self.feat.add("lit:float")
+            return bool(self.add("Range", [{"lit": 0.0}, {"lit": self.d(st.sampled_from([2.0, 3.0]))}, {"lit": self.d(st.sampled_from([1.0, 0.5]))}]))
+        if r == 1:
+            shape = self.d(st.sampled_from([[2], [3], [2, 2], [1, 3]]))
+            attrs = {}
+            if self.chance(7):
+                v = self.d(st.sampled_from([np.array([1.5], np.float32), np.array([2], np.int64), np.array([True]), np.array([-1.0], np.float32)]))
+                attrs = {"value": {"tensor": optcommon.arr_to_json(v)}}
+            return bool(self.add("ConstantOfShape", [self.int_list(shape)], attrs))
+        if r == 2:
+            k = self.d(st.integers(0, 4))
+            attrs = [{"value_float": self.d(st.sampled_from([1.5, -0.5, 2.0]))}, {"value_int": self.d(st.sampled_from([2, -1, 0]))}, {"value_ints": [1, 2, 3][: self.d(st.integers(1, 3))]},
+                     {"value_floats": [0.5, 1.0, -2.0][: self.d(st.integers(1, 3))]},
+                     {"value": {"tensor": optcommon.arr_to_json(np.array([[1.0, 2.0], [3.0, 4.0]], np.float32))}}][k]
+            return bool(self.add("Constant", [], attrs))
+        x = self.pick(lambda a: a.dtype == np.float32 and a.ndim == 2)
+        if x is None:
+            return False
+        if r == 3:
+            if self.chance(5):
+                return bool(self.add("Trilu", [{"v": x}], {"upper": self.d(st.integers(0, 1))}))
+            self.feat.add("lit:int")
+            return bool(self.add("Trilu", [{"v": x}, {"lit": self.d(st.integers(-1, 1))}], {"upper": self.d(st.integers(0, 1))} if self.chance(5) else {}))
+        pads = [self.d(st.integers(0, 1)) for _ in range(4)]
+        ins = [{"v": x}, self.int_list(pads)]
+        if self.chance(6):
+            ins.append({"lit": self.d(st.sampled_from([0.5, 1, -1.0, 0]))})
+            self.feat.add("lit:float")
+        return bool(self.add("Pad", ins, {"mode": "constant"} if self.chance(3) else {}))
+
+    def g_gelu(self):
+        x = self.pick(self.is_f32)
+        if x is None or self.fmode:
+            return False
+        if self.opset >= 20 and self.chance(4):
+            return bool(self.add("Gelu", [{"v": x}], {"approximate": "none"} if self.chance(5) else {}))
+        self.feat.add("domain:com.microsoft")
+        if self.chance(7):
+            return bool(self.add("Gelu", [{"v": x}], dom="com.microsoft"))
+        return bool(self.add("QuickGelu", [{"v": x}], {"alpha": 1.5} if self.chance(5) else {}, dom="com.microsoft"))
+
+    def g_tensor_operand(self):
+        """explicit initializer / ir.tensor operand"""
+        x = self.pick(lambda a: a.dtype in (np.float32, np.int64) and a.ndim >= 1)
+        if x is None or self.fmode:
+            return False
+        a = np.asarray(self.env[x])
+        w = (np.arange(a.shape[-1]) + 1).astype(a.dtype) * (0.5 if a.dtype == np.float32 else 1)
+        w = w.astype(a.dtype)
+        r = self.d(st.integers(0, 5))
+        if r < 3:
+            i = self.fresh()
+            s = {"k": "init", "out": i, "arr": optcommon.arr_to_json(w), "name": self.uname("w"), "via": ["builder", "op", "rename"][r]}
+            if not self.emit(s):
+                return False
+            self.feat.add("initializer:" + s["via"])
+            return bool(self.add(self.d(st.sampled_from(["Add", "Mul", "Sub"])), [{"v": x}, {"v": i}]))
+        if r < 5 or not self.region("unnamed_tensor_operand"):
+            self.feat.add("operand:ir.tensor")
+            return bool(self.add(self.d(st.sampled_from(["Add", "Mul"])), [{"v": x}, {"tensor": optcommon.arr_to_json(w), "name": self.uname("t")}]))
+        self.feat.add("operand:unnamed-tensor")
+        o = {"tensor": optcommon.arr_to_json(w), "name": None}
+        if self.chance(5):
+            o["as"] = "numpy"
+        return bool(self.add("Add", [{"v": x}, o]))
+
+    def g_scope(self):
+        if self.fmode:
+            return False
+        if self.scopes and self.chance(6):
+            self.scopes -= 1
+            self.cur.append({"k": "pop"})
+            return True
+        if self.scopes < 2:
+            self.scopes += 1
+            self.cur.append({"k": "push", "name": self.d(st.sampled_from(["layer1", "attn", "layers.0", "blk"])), "cls": self.d(st.sampled_from(["", "Block", "Attention"]))})
+            self.feat.add("scope:push_module")
+            return True
+        return False
+
+    def close_scopes(self):
+        while self.scopes:
+            self.scopes -= 1
+            self.cur.append({"k": "pop"})
+
+    SIMPLE = ["g_unary", "g_unary_attr", "g_binary", "g_binary", "g_binary", "g_variadic", "g_compare", "g_logic", "g_where", "g_clip", "g_cast", "g_reshape",
+              "g_transpose", "g_unsqueeze", "g_concat", "g_split", "g_slice", "g_gather", "g_expand_tile", "g_shape_ops", "g_reduce", "g_cumsum_topk",
+              "g_matmul", "g_creation", "g_gelu", "g_tensor_operand", "g_softmax", "g_scope"]
+    FUNC = ["g_unary", "g_unary_attr", "g_unary_attr", "g_binary", "g_binary", "g_variadic", "g_softmax", "g_reduce", "g_concat", "g_transpose"]
+    SHAPE_KEEP = ["g_unary", "g_unary_attr", "g_binary", "g_binary"]
+
+    def grow(self, n, table=None):
+        done = 0
+        tries = 0
+        while done < n and tries < 4 * n + 4:
+            tries += 1
+            h = self.d(st.sampled_from(table or self.SIMPLE))
+            if getattr(self, h)():
+                done += 1
+        return done
+
+    # ---- bodies / control flow
+    def body_begin(self, params):
+        """Open a body scope.  params: list of arrays -> fresh ids visible inside."""
+        saved = (self.env, self.cur, self.local, self.scopes)
+        self.env = dict(self.env)
+        self.cur = []
+        self.local = []
+        self.scopes = 0
+        ids = []
+        for a in params:
+            i = self.fresh()
+            self.env[i] = a
+            ids.append(i)
+        self.depth += 1
+        return saved, ids
+
+    def body_end(self, saved, ids, rets, kind):
+        self.close_scopes()
+        steps = self.cur
+        self.env, self.cur, self.local, self.scopes = saved
+        self.depth -= 1
+        n = self.uname("")
+        body = {"params": ids, "steps": steps, "ret": rets, "name": f"{kind}_{n}", "pnames": [f"{kind}{n}_in{k}" for k in range(len(ids))],
+                "onames": [f"{kind}{n}_out{k}" for k in range(len(rets))], "auto_scope": f"sg{n}"}
+        how = self.d(st.sampled_from(["full", "full", "dtype", "untyped"]))
+        # onnxruntime insists on known shapes for the Loop iteration-number/condition inputs: those are always fully typed
+        body["ptyped"] = ["full"] * len(ids) if self.chance(8) else ["full" if (kind == "loop" and k < 2) else self.d(st.sampled_from(["full", "dtype"])) for k in range(len(ids))]
+        body["otyped"] = [how] * len(rets)
+        body["spec"] = self.chance(3)
+        body["ret_tuple"] = self.chance(5)
+        if self.chance(3) or not self.region("subgraph_autonames"):
+            body["scope"] = body["auto_scope"]
+        else:
+            body["scope"] = None
+            self.feat.add("body:no-module-scope")
+        self.feat.add("body:outputs-" + how)
+        return body
+
+    def inside(self, i):
+        return self.local is not None and i in self.local
+
+    def ret_like(self, arr, prefer=None):
+        """A value produced inside the current body with the dtype (and preferably shape) of arr; emits a node if needed."""
+        arr = np.asarray(arr)
+        c = [i for i in self.local if np.asarray(self.env[i]).dtype == arr.dtype and np.asarray(self.env[i]).shape == arr.shape]
+        if c and self.chance(8):
+            return c[-1] if self.chance(7) else self.d(st.sampled_from(c))
+        src = prefer
+        if src is None:
+            src = self.pick(lambda b: b.dtype == arr.dtype and b.shape == arr.shape)
+        if src is not None:
+            r = self.add("Identity", [{"v": src}], decorate=False)
+            return r[0] if r else None
+        src = self.pick(lambda b: b.shape == arr.shape and (b.dtype.kind != "f" or np.all(np.isfinite(b))))
+        if src is not None:
+            r = self.add("Cast", [{"v": src}], {"to": ENUM[NAME_OF[arr.dtype]]}, decorate=False)
+            return r[0] if r else None
+        return None
+
+    def g_if(self):
+        if self.depth >= 2 or self.fmode:
+            return False
+        c = self.pick(lambda a: a.dtype == np.bool_ and a.shape == ())
+        if c is None or self.chance(2):
+            x = self.pick(lambda a: a.dtype == np.float32 and a.size >= 1 and np.all(np.isfinite(a)))
+            if x is None:
+                return False
+            a = np.asarray(self.env[x])
+            s = self.add("ReduceSum", [{"v": x}], {"keepdims": 0}, decorate=False) if a.ndim else [x]
+            if not s:
+                return False
+            r = self.add(self.d(st.sampled_from(["Greater", "Less"])), [{"v": s[0]}, {"lit": self.d(st.sampled_from([0.0, 1, 2.5, -1]))}], decorate=False)
+            self.feat.add("lit:float")
+            if not r:
+                return False
+            c = r[0]
+        cond = {"v": c}
+        if self.chance(1, 12):
+            cond = {"lit": self.d(st.booleans())}
+            self.feat.add("lit:bool")
+        nret = self.d(st.sampled_from([1, 1, 1, 2]))
+        bodies = []
+        protos = None
+        for branch in ("then", "else"):
+            saved, _ = self.body_begin([])
+            self.grow(self.d(st.integers(1, 3)), self.SIMPLE + ["g_if", "g_loop", "g_call"] if self.depth < 2 else None)
+            if protos is None:
+                rets = []
+                for _ in range(nret):
+                    cnd = [i for i in self.local if i not in rets]
+                    if not cnd:
+                        x = self.pick(lambda a: True)
+                        r = self.add("Identity", [{"v": x}], decorate=False) if x is not None else None
+                        cnd = r or []
+                    if not cnd:
+                        break
+                    rets.append(self.d(st.sampled_from(cnd)) if self.chance(3) else cnd[-1])
+                if len(rets) != nret:
+                    self.body_end(saved, [], rets, branch)
+                    return False
+                protos = [np.asarray(self.env[i]) for i in rets]
+            else:
+                rets = []
+                for p in protos:
+                    i = self.ret_like(p)
+                    if i is None or i in rets:
+                        i2 = self.add("Identity", [{"v": i}], decorate=False) if i is not None else None
+                        i = i2[0] if i2 else None
+                    if i is None:
+                        self.body_end(saved, [], rets, branch)
+                        return False
+                    rets.append(i)
+            bodies.append(self.body_end(saved, [], rets, branch))
+        s = {"k": "if", "cond": cond, "then": bodies[0], "else": bodies[1], "outs": [self.fresh() for _ in range(nret)],
+             "api": self.d(st.sampled_from(["subgraph", "subgraph", "build_graph"]))}
+        if nret == 1 and self.chance(2):
+            s["omode"], s["onames"] = "names", [self.uname("o")]
+        elif nret > 1:
+            s["omode"] = "int"
+        if self.emit(s):
+            self.feat.update({"subgraph:If", "api:" + s["api"], f"subgraph:depth{self.depth + 1}"})
+            return True
+        return False
+
+    def g_loop(self):
+        if self.depth >= 2 or self.fmode:
+            return False
+        x = self.pick(lambda a: a.dtype in (np.float32, np.int64) and a.size <= 12 and (a.dtype.kind != "f" or np.all(np.isfinite(a))))
+        if x is None:
+            return False
+        carried = [x]
+        if self.chance(3):
+            y = self.pick(lambda a: a.dtype in (np.float32, np.int64) and a.size <= 12)
+            if y is not None and y != x:
+                carried.append(y)
+        trip = self.d(st.integers(1, 3))
+        saved, ids = self.body_begin([np.array(0, np.int64), np.array(True)] + [self.env[c] for c in carried])
+        it, cin = ids[0], ids[1]
+        rets = []
+        # condition
+        r = self.d(st.integers(0, 3))
+        if r == 0:
+            cr = self.add("Identity", [{"v": cin}], decorate=False)
+        elif r == 1:
+            cr = self.add("Less", [{"v": it}, {"lit": self.d(st.integers(0, 2))}], decorate=False)
+            self.feat.update({"lit:int", "loop:computed-condition"})
+        elif r == 2:
+            cr = self.add("And", [{"v": cin}, {"lit": True}], decorate=False)
+            self.feat.add("lit:bool")
+        else:
+            cr = [cin]
+            self.feat.add("body:returns-input")
+        if not cr:
+            self.body_end(saved, ids, [], "loop")
+            return False
+        rets.append(cr[0])
+        for pid in ids[2:]:
+            # shape-preserving update of the carried value
+            a = np.asarray(self.env[pid])
+            kind = self.kind_of(a)
+            opn = self.d(st.sampled_from(["Add", "Mul", "Sub"] if kind == "i" else ["Add", "Mul", "Sub", "Max"]))
+            other = self.literal(kind) if self.chance(5) else None
+            if other is None:
+                y = self.like(a)
+                other = {"v": y} if y is not None and np.asarray(self.env[y]).shape in ((), a.shape) else self.literal(kind)
+            if "lit" in other and isinstance(other["lit"], str):
+                other = {"lit": 0.5}
+            nr = self.add(opn, [{"v": pid}, other])
+            if nr and self.chance(3) and kind == "f":
+                nr2 = self.add(self.d(st.sampled_from(["Tanh", "Relu", "Neg", "Abs"])), [{"v": nr[0]}])
+                nr = nr2 or nr
+            if not nr or np.asarray(self.env[nr[0]]).shape != a.shape or np.asarray(self.env[nr[0]]).dtype != a.dtype:
+                self.body_end(saved, ids, rets, "loop")
+                return False
+            rets.append(nr[0])
+        self.grow(self.d(st.integers(0, 2)), self.SIMPLE + (["g_if"] if self.depth < 2 else []))
+        nscan = self.d(st.sampled_from([0, 0, 1]))
+        if nscan:
+            cnd = [i for i in self.local if i not in rets and np.asarray(self.env[i]).size <= 12]
+            if cnd:
+                rets.append(cnd[-1])
+                self.feat.add("loop:scan-output")
+            else:
+                nscan = 0
+        body = self.body_end(saved, ids, rets, "loop")
+        s = {"k": "loop", "trip": {"lit": trip} if self.chance(8) else None, "cond": {"lit": True} if self.chance(6) else None,
+             "init": [{"v": c} for c in carried], "body": body, "outs": [self.fresh() for _ in range(len(carried) + nscan)],
+             "api": self.d(st.sampled_from(["subgraph", "subgraph", "build_graph"]))}
+        if s["trip"] is None and s["cond"] is None:
+            s["trip"] = {"lit": trip}
+        if s["trip"] is None and r not in (1,):
+            s["trip"] = {"lit": trip}     # without a trip count the body's condition must end the loop
+        if s["trip"] is None or s["cond"] is None:
+            self.feat.add("operand:None")
+        self.feat.update({"lit:int", "lit:bool"} if s["cond"] else {"lit:int"})
+        s["omode"] = "int" if len(s["outs"]) > 1 or self.chance(5) else "default"
+        if self.emit(s):
+            self.feat.update({"subgraph:Loop", "api:" + s["api"], f"subgraph:depth{self.depth + 1}"})
+            return True
+        return False
+
+    def g_scan(self):
+        if self.depth >= 1 or self.fmode:
+            return False
+        xs = self.pick(lambda a: a.dtype == np.float32 and a.ndim >= 2 and 1 <= a.shape[0] <= 3 and np.all(np.isfinite(a)))
+        if xs is None:
+            return False
+        a = np.asarray(self.env[xs])
+        init = self.pick(lambda b: b.dtype == np.float32 and b.shape == a.shape[1:])
+        if init is None:
+            r = self.add("ReduceSum", [{"v": xs}, self.int_list([0])], {"keepdims": 0}, decorate=False)
+            if not r:
+                return False
+            init = r[0]
+        saved, ids = self.body_begin([self.env[init], a[0]])
+        st_, xi = ids
+        n1 = self.add(self.d(st.sampled_from(["Add", "Mul", "Sub", "Max"])), [{"v": st_}, {"v": xi}])
+        if not n1:
+            self.body_end(saved, ids, [], "scan")
+            return False
+        if self.chance(4):
+            n2 = self.add("Mul", [{"v": n1[0]}, self.literal("f")])
+            if n2 and np.asarray(self.env[n2[0]]).shape == a.shape[1:] and np.asarray(self.env[n2[0]]).dtype == np.float32:
+                n1 = n2
+        self.grow(self.d(st.integers(0, 1)))
+        rets = [n1[0]]
+        r = self.d(st.integers(0, 3))
+        if r == 0 and self.region("body_dup_return"):
+            rets.append(n1[0])       # the tutorial's cumulative-sum example returns (new_state, new_state)
+            self.feat.add("body:same-value-twice")
+        else:
+            cnd = [i for i in self.local if i != n1[0] and np.asarray(self.env[i]).size <= 12]
+            if cnd and r == 1:
+                rets.append(cnd[-1])
+            else:
+                i = self.add("Identity", [{"v": n1[0]}], decorate=False)
+                if not i:
+                    self.body_end(saved, ids, rets, "scan")
+                    return False
+                rets.append(i[0])
+        body = self.body_end(saved, ids, rets, "scan")
+        s = {"k": "scan", "init": [{"v": init}], "xs": [{"v": xs}], "body": body, "outs": [self.fresh(), self.fresh()], "omode": "int",
+             "api": self.d(st.sampled_from(["subgraph", "build_graph"]))}
+        if self.emit(s):
+            self.feat.update({"subgraph:Scan", "api:" + s["api"], f"subgraph:depth{self.depth + 1}"})
+            return True
+        return False
+
+    # ---- functions
+    def define_function(self, args):
+        kind = self.d(st.sampled_from(["script", "script", "script_opb", "built", "built"]))
+        idx = len(self.prog["funcs"])
+        f = {"name": f"fn{idx}", "domain": f"fdom{idx}" if kind != "script_opb" else "this", "kind": kind, "attrs": [], "params": [], "body": [], "ret": []}
+        if kind == "built":
+            f["typed"] = self.chance(5)
+            f["attrs_as"] = self.d(st.sampled_from(["list", "dict"]))
+        saved = (self.env, self.cur, self.local, self.scopes, self.fmode, self.nid, self.depth)
+        self.env, self.cur, self.local, self.scopes, self.nid, self.depth = {}, f["body"], [], 0, 0, 5
+        self.fmode = {"attrs": f["attrs"], "values": {}, "kind": kind}
+        for a in args:
+            i = self.fresh()
+            self.env[i] = a
+            f["params"].append(i)
+        ok = self.grow(self.d(st.integers(1, 4)), self.FUNC) >= 1
+        nested = None
+        if ok and kind == "script" and self.chance(2) and self.region("nested_function"):
+            callee = [j for j, g in enumerate(self.prog["funcs"]) if g["kind"] == "script" and len(g["params"]) == 1]
+            x = self.pick(self.is_f32)
+            if callee and x is not None:
+                j = callee[-1]
+                g = self.prog["funcs"][j]
+                given = {a["name"]: (a["default"] if a.get("default") is not None else (0.5 if a["type"] == "f" else 0)) for a in g["attrs"]}
+                s = {"k": "call", "fn": j, "mode": "call", "args": [{"v": x}], "attrs": given, "outs": [self.fresh() for _ in g["ret"]]}
+                if self.emit(s):
+                    nested = j
+        rets = list(dict.fromkeys(self.local[-2:] if self.chance(3) else self.local[-1:]))
+        values = dict(self.fmode["values"])
+        self.env, self.cur, self.local, self.scopes, self.fmode, self.nid, self.depth = saved
+        if not ok or not rets:
+            return None
+        f["ret"] = rets
+        self.prog["funcs"].append(f)
+        self.feat.add("function:" + kind)
+        if nested is not None:
+            self.feat.add("function:nested-call")
+        if f["attrs"]:
+            self.feat.add("function:attributes")
+        return idx, values
+
+    def g_call(self):
+        if self.fmode or self.depth >= 2:
+            return False
+        x = self.pick(lambda a: a.dtype == np.float32 and a.ndim >= 1 and np.all(np.isfinite(a)))
+        if x is None:
+            return False
+        a = np.asarray(self.env[x])
+        funcs = self.prog["funcs"]
+        reuse = [j for j, g in enumerate(funcs)] if funcs and self.chance(4) else []
+        args = [{"v": x}]
+        if reuse:
+            j = self.d(st.sampled_from(reuse))
+            f = funcs[j]
+            if len(f["params"]) == 2:
+                y = self.like(a)
+                args.append({"v": y if y is not None else x})
+            given = {}
+            for at in f["attrs"]:
+                if at.get("default") is not None and self.chance(4):
+                    continue
+                base = f["_first"][at["name"]]
+                given[at["name"]] = base if at["type"] == "i" or self.chance(5) else self.d(st.sampled_from([0.1, 0.5, 2.0]))
+            self.feat.add("function:reused")
+        else:
+            arrs = [a]
+            if self.chance(4):
+                y = self.like(a)
+                if y is not None:
+                    args.append({"v": y})
+                    arrs.append(np.asarray(self.env[y]))
+            r = self.define_function(arrs)
+            if r is None:
+                return False
+            j, values = r
+            f = funcs[j]
+            f["_first"] = values
+            given = {}
+            for at in f["attrs"]:
+                if at.get("default") is not None and at["default"] == values[at["name"]] and self.chance(5):
+                    continue
+                given[at["name"]] = values[at["name"]]
+        if len(args) == 2 and self.chance(2) and self.region("inline_literal_arg"):
+            args[1] = self.literal("f")
+            if isinstance(args[1]["lit"], str):
+                args[1] = {"lit": 2.0}
+            self.feat.add("function:literal-arg")
+        omitted = [at["name"] for at in f["attrs"] if at["name"] not in given]
+        if omitted:
+            self.feat.add("function:default-attr-omitted")
+            self.region("inline_default_attr")
+        s = {"k": "call", "fn": j, "mode": self.d(st.sampled_from(["call", "inline"])), "args": args, "attrs": given,
+             "aform": self.d(st.sampled_from(["py", "attr"])), "outs": [self.fresh() for _ in f["ret"]]}
+        if given and s["aform"] == "py":
+            self.region("inline_py_attr")
+        r = self.d(st.integers(0, 5))
+        if r == 0:
+            s["omode"], s["onames"] = "names", [self.uname("o") for _ in f["ret"]]
+        elif r == 1:
+            s["omode"] = "int"
+        if self.chance(3):
+            s["prefix"] = self.d(st.sampled_from(["layer1", "math_ops", "blk.0"]))
+        if self.emit(s):
+            self.feat.update({"function:" + s["mode"], "function:aform-" + s["aform"]} if given else {"function:" + s["mode"]})
+            return True
+        if not reuse:
+            funcs.pop()      # the fresh definition is unused
+        return False
+
+    # ---- whole program
+    def generate(self):
+        rng_seed = self.d(st.integers(0, 2**31 - 1))
+        rng = np.random.default_rng(rng_seed)
+        n_in = self.d(st.integers(1, 3))
+        for k in range(n_in):
+            dt = "FLOAT" if k == 0 else self.d(st.sampled_from(["FLOAT", "FLOAT", "FLOAT", "INT64", "DOUBLE", "BOOL", "INT32"]))
+            shape = self.d(st.sampled_from(SHAPES[2:] if k == 0 else SHAPES))
+            if dt in ("FLOAT", "DOUBLE"):
+                a = rng.choice(F_POOL, size=shape).astype(NP[dt])
+            elif dt == "BOOL":
+                a = rng.integers(0, 2, size=shape).astype(np.bool_)
+            else:
+                a = rng.choice(I_POOL, size=shape).astype(NP[dt])
+            i = self.fresh()
+            self.env[i] = np.asarray(a)
+            self.prog["inputs"].append({"id": i, "name": f"x{k}", "via": self.d(st.sampled_from(["input", "input", "value"]))})
+        feeds = {inp["name"]: self.env[inp["id"]] for inp in self.prog["inputs"]}
+        n = self.d(st.integers(2, 9))
+        want = self.d(st.integers(0, 9))
+        specials = []
+        if want < 6:
+            specials.append(self.d(st.sampled_from(["g_if", "g_if", "g_loop", "g_loop", "g_scan", "g_call", "g_call", "g_call"])))
+        if want < 2:
+            specials.append(self.d(st.sampled_from(["g_if", "g_loop", "g_call"])))
+        self.grow(self.d(st.integers(1, max(1, n // 2))))
+        for h in specials:
+            for _ in range(3):
+                if getattr(self, h)():
+                    break
+            self.grow(self.d(st.integers(0, 2)))
+        self.grow(max(0, n - len(self.cur)))
+        self.close_scopes()
+        produced = [i for s in self.prog["steps"] for i in (s.get("outs") or ([s["out"]] if "out" in s else []))]
+        if not produced:
+            return None
+        used = set()
+        for s in self.prog["steps"]:
+            for o in list(s.get("ins", [])) + list((s.get("kwins") or {}).values()) + list(s.get("args", [])) + list(s.get("init", [])) + list(s.get("xs", [])):
+                if "v" in o:
+                    used.add(o["v"])
+        leaves = [i for i in produced if i not in used]
+        outs = leaves[-3:] if leaves else produced[-1:]
+        if self.chance(3) and len(produced) > 1:
+            extra = self.d(st.sampled_from(produced))
+            if extra not in outs:
+                outs.append(extra)
+        self.prog["outputs"] = outs
+        for f in self.prog["funcs"]:
+            f.pop("_first", None)
+        return {"part": "trace", "prog": self.prog, "feeds": optcommon.feeds_to_json(feeds), "exclude": sorted(self.ex), "features": sorted(self.feat)}
+
+
+@st.composite
+def trace_cases(draw, exclude, note):
+    g = TraceGen(draw, exclude, note)
+    return g.generate()
+
+
+# =====================================================================================================================
+# part (a): oracle
+# =====================================================================================================================
+def _count(prog):
+    return sum(1 for _ in prog_steps(prog))
+
+
+def _has_loop_scan_out(prog):
+    for s in prog_steps(prog, with_funcs=False):
+        if s["k"] == "loop" and (len(s["outs"]) > len(s["init"]) or s.get("cond") is None):
+            return True       # ... and treats an omitted condition input as False (zero iterations)
+    return False
+
+
+def _first_bad_step(prog, drv, model, feeds, rec):
+    """Name the first main-scope step whose value in the model (reference evaluator intermediates) differs from the replay."""
+    r = execs.run_ref(model, feeds, intermediate=True)
+    if r[0] != "ok":
+        return None
+    inter = r[2]
+    for s in prog["steps"]:
+        for i in s.get("outs", []):
+            v = drv.vals.get(i)
+            if v is None or v.name not in inter or i not in rec:
+                continue
+            got = inter[v.name]
+            if isinstance(got, list):
+                continue
+            if compare.same_array(np.asarray(rec[i]), np.asarray(got), rel=2e-5, abs_=2e-6):
+                return s["op"] if s["k"] == "op" else s["k"]
+    return None
+
+
+def check_trace(case, want_info=False):
+    """Returns (verdicts, info).  verdicts: [(bucket, detail)]."""
+    prog = case["prog"]
+    exclude = case.get("exclude", [])
+    feeds = optcommon.feeds_from_json(case["feeds"])
+    info = {"skip": None, "classes": []}
+    interp = Interp(prog)
+    env = {inp["id"]: feeds[inp["name"]] for inp in prog["inputs"]}
+    rec = RecEnv(env)
+    try:
+        with np.errstate(all="ignore"):
+            interp.run_steps(prog["steps"], rec, None)
+    except ReplayError as e:
+        info["skip"] = f"replay_failed:{str(e)[:40]}"
+        return [], info
+    expected = [np.asarray(rec[i]) for i in prog["outputs"]]
+    arrays = dict(rec.all)
+    scale = execs.magnitude_scale({k: v for k, v in arrays.items()})
+    has_nan = any(np.asarray(v).dtype.kind == "f" and np.isnan(np.asarray(v)).any() for v in arrays.values())
+    has_calls = any(s["k"] == "call" for s in prog_steps(prog, with_funcs=False))
+    use_ref = not _has_loop_scan_out(prog)     # onnx.reference concatenates Loop scan outputs instead of stacking them
+    verdicts = []
+    results = {}
+    for variant in (("drawn", False), ("flipped", True)) if has_calls else (("drawn", False),):
+        tag, flip = variant
+        drv = Driver(prog, arrays, exclude, flip=flip)
+        drv.frec = interp.frec
+        try:
+            model = drv.build()
+        except ReplayError as e:
+            info["skip"] = f"harness:{str(e)[:60]}"
+            return [], info
+        except CutError as e:
+            verdicts.append((e.bucket(), f"[{tag}] {e}"))
+            continue
+        for _, msg in drv.inferred[:1]:
+            verdicts.append(("inference:static type/shape disagrees with the trace", f"[{tag}] {msg}"))
+        for b, d in name_problems(model):
+            verdicts.append((b, f"[{tag}] {d}"))
+        problems = wellformed.check_model(model)
+        for kind, msg in problems[:2]:
+            if kind in ("ssa", "shadow") and any(b.startswith("names:value") for b, _ in verdicts):
+                continue      # same root cause, already reported under names:value:*
+            verdicts.append((f"invalid:{kind}", f"[{tag}] {msg}"))
+        a, b = run_both(model, feeds, use_ref=use_ref)
+        if b[0] != "ok" and has_nan and a[0] == "ok":
+            info["classes"].append("verdict:single-runtime-with-nan-skipped")
+            results[tag] = None
+            continue
+        v, suffix, detail = judge_outputs(tag, a, b, expected, scale)
+        info["classes"].append(f"verdict:{tag}:{v}" + (":ort-only" if b[0] != "ok" and a[0] == "ok" else ""))
+        results[tag] = a if a[0] == "ok" else b
+        if v == "violation":
+            if suffix.startswith("values"):
+                where = _first_bad_step(prog, drv, model, feeds, arrays) if use_ref else None
+                suffix = f"values:{where or 'output'}" + (":inlined" if has_calls and _any_inline(prog, flip) else "")
+            else:
+                suffix = "not-executable"
+            if any(bk.startswith(("names:value:shadows", "names:value:dup-in", "invalid:")) for bk, _ in verdicts) and not suffix.startswith("values"):
+                continue      # an invalid model not executing is the same finding
+            verdicts.append((suffix, f"[{tag}] {detail}"))
+    if has_calls and results.get("drawn") and results.get("flipped") and results["drawn"][0] == "ok" and results["flipped"][0] == "ok":
+        d = compare.same_outputs(results["drawn"][1], results["flipped"][1], rel=2e-5, abs_=2e-6 * max(scale, 1.0))
+        if d:
+            verdicts.append(("call!=call_inline", d))
+    return _dedup(verdicts), info
+
+
+def _any_inline(prog, flip):
+    for s in prog_steps(prog, with_funcs=False):
+        if s["k"] == "call" and ((s["mode"] == "inline") != flip):
+            return True
+    return False
+
+
+class RecEnv(dict):
+    """An environment that remembers every value ever bound (body-local ones included): the driver needs their types."""
+
+    def __init__(self, base, sink=None):
+        super().__init__(base)
+        self.all = sink if sink is not None else dict(base)
+
+    def __setitem__(self, k, v):
+        super().__setitem__(k, v)
+        self.all.setdefault(k, v)
+
+
+def trace_classes(case):
+    prog = case["prog"]
+    cl = set(case.get("features", []))
+    n = _count(prog)
+    cl.add(f"trace:steps={'1-4' if n <= 4 else '5-9' if n <= 9 else '10-19' if n <= 19 else '20+'}")
+    cl.add(f"trace:opset={prog['opset']}")
+    return sorted(cl)
+
+
+def trace_nontrivial(case):
+    f = set(case.get("features", []))
+    return any(x.startswith("lit:") for x in f) and any(x.startswith(("subgraph:", "function:call", "function:inline")) for x in f)
+
+
+def run_traces(col, spec):
+    def note(name):
+        col.exclude(name)
+
+    def body(case):
+        if case is None:
+            col.skip("trace:empty-program")
+            return
+        verdicts, info = check_trace(case)
+        if info["skip"]:
+            col.skip("trace:" + info["skip"])
+            return
+        prog = case["prog"]
+        col.case(("trace", _hash(prog)), trace_nontrivial(case), trace_classes(case) + info["classes"],
+                 sample={"part": "trace", "program": program_text(prog), "features": case["features"]})
+        for bucket, detail in verdicts:
+            col.violation("trace:" + bucket, detail, dict(case, text=program_text(prog)), size=_count(prog))
+
+    drive(trace_cases(sorted(EXCLUDE), note), body, spec["n"], spec["seed"])
+
+
+def trace_replay(case):
+    verdicts, info = check_trace(case)
+    if info["skip"]:
+        return []
+    return [("trace:" + b, d) for b, d in verdicts]
+
+
+def program_text(prog, limit=6000):
+    """Readable rendering of a program (what the user would have typed)."""
+
+    def opnd(o):
+        if "v" in o:
+            return f"t{o['v']}"
+        if "none" in o:
+            return "None"
+        if "lit" in o:
+            v = _lit_value(o)
+            return repr(tuple(v)) if o.get("tuple") and isinstance(v, list) else repr(v)
+        return f"ir.tensor(<{o.get('as', 'tensor')}>, name={o.get('name')!r})"
+
+    def attr(v):
+        if isinstance(v, dict) and "ref" in v:
+            return "@" + v["ref"]
+        if isinstance(v, dict) and "tensor" in v:
+            return "<tensor>"
+        return repr(v)
+
+    def kw_out(s):
+        m = s.get("omode", "default")
+        if m == "names":
+            return [f"_outputs={s['onames']!r}"]
+        if m == "values":
+            return ["_outputs=[" + ", ".join(f"ir.Value(name={x!r})" for x in s["onames"]) + "]"]
+        if m == "int" or (m == "default" and len(s["outs"]) != 1):
+            return [f"_outputs={len(s['outs'])}"]
+        return []
+
+    def body_txt(b, ind):
+        head = "  " * ind + f"def {b['name']}(op{''.join(', t%d' % i for i in b.get('params', []))}):" + (f"  # push_module({b['scope']!r})" if b.get("scope") else "") + "\n"
+        return head + steps_txt(b["steps"], ind + 1) + "  " * (ind + 1) + "return " + ", ".join(f"t{i}" for i in b["ret"]) + f"   # declared outputs {b['otyped'][:1]}\n"
+
+    def steps_txt(steps, ind):
+        out = ""
+        pad = "  " * ind
+        for s in steps:
+            k = s["k"]
+            outs = ", ".join(f"t{i}" for i in s.get("outs", [s.get("out")]))
+            if k == "op":
+                args = [opnd(o) for o in s["ins"]]
+                if s.get("posattr"):
+                    args += [attr(v) for v in (s.get("attrs") or {}).values()]
+                else:
+                    args += [f"{n}={attr(v)}" for n, v in (s.get("attrs") or {}).items()]
+                args += [f"{n}={opnd(o)}" for n, o in (s.get("kwins") or {}).items()] + kw_out(s)
+                tgt = "op"
+                if s.get("via") == "opset":
+                    tgt = f"builder.opset({s.get('dom', '')!r}, v)"
+                elif s.get("via") == "domkw":
+                    args += [f"_domain={s.get('dom', '')!r}", "_version=v"]
+                elif s.get("via") == "verkw":
+                    args.append("_version=v")
+                out += f"{pad}{outs} = {tgt}.{s['op']}({', '.join(args)})\n"
+            elif k == "push":
+                out += f"{pad}builder.push_module({s['name']!r}, {s.get('cls', '')!r})\n"
+            elif k == "pop":
+                out += f"{pad}builder.pop_module()\n"
+            elif k == "init":
+                out += f"{pad}{outs} = {s.get('via')}.initializer(ir.tensor(..., name={s['name']!r}))\n"
+            elif k == "if":
+                out += body_txt(s["then"], ind) + body_txt(s["else"], ind)
+                out += f"{pad}{outs} = op.If({opnd(s['cond'])}, then_branch={s.get('api')}({s['then']['name']}), else_branch={s.get('api')}({s['else']['name']}){''.join(', ' + x for x in kw_out(s))})\n"
+            elif k == "loop":
+                out += body_txt(s["body"], ind)
+                a = [("None" if s.get("trip") is None else opnd(s["trip"])), ("None" if s.get("cond") is None else opnd(s["cond"]))] + [opnd(o) for o in s["init"]]
+                out += f"{pad}{outs} = op.Loop({', '.join(a)}, body={s.get('api')}({s['body']['name']}){''.join(', ' + x for x in kw_out(s))})\n"
+            elif k == "scan":
+                out += body_txt(s["body"], ind)
+                a = [opnd(o) for o in s["init"] + s["xs"]]
+                out += f"{pad}{outs} = op.Scan({', '.join(a)}, body={s.get('api')}({s['body']['name']}), num_scan_inputs={len(s['xs'])}, _outputs={len(s['outs'])})\n"
+            elif k == "call":
+                a = [f"fn{s['fn']}"] + [opnd(o) for o in s["args"]] + [f"{n}={v!r}" + ("" if s.get("aform", "py") == "py" else "  # as ir.Attr") for n, v in (s.get("attrs") or {}).items()]
+                a += kw_out(s) if s.get("omode") in ("names", "int") else []
+                if s.get("prefix"):
+                    a.append(f"_prefix={s['prefix']!r}  # inline only")
+                out += f"{pad}{outs} = op.{'call' if s['mode'] == 'call' else 'call_inline'}({', '.join(a)})\n"
+        return out
+
+    txt = f"# opset {prog['opset']}; inputs " + ", ".join(f"t{i['id']}={i['name']}" for i in prog["inputs"]) + "\n"
+    for idx, f in enumerate(prog.get("funcs", [])):
+        if f["kind"] in ("script", "script_opb"):
+            try:
+                txt += func_source(f, idx, prog["funcs"])
+            except Exception:  # noqa: BLE001
+                txt += f"# {f['name']}: <source unavailable>\n"
+        else:
+            txt += f"# {f['name']} = build_function(trace, inputs{' typed' if f.get('typed') else ' untyped'}, domain={f['domain']!r}, attributes={[(a['name'], a.get('default')) for a in f['attrs']]})\n"
+            txt += f"def trace_{f['name']}(op{''.join(', t%d' % i for i in f['params'])}):\n" + steps_txt(f["body"], 1) + "  return " + ", ".join(f"t{i}" for i in f["ret"]) + "\n"
+    txt += steps_txt(prog["steps"], 0) + "outputs: " + ", ".join(f"t{i}" for i in prog["outputs"]) + "\n"
+    return txt[:limit]
+
+
+# =====================================================================================================================
+# regions of recorded findings (predicates over stored cases)
+# =====================================================================================================================
+def _is_trace(case):
+    return case.get("part") == "trace"
+
+
+def _bodies(prog):
+    for s in prog_steps(prog, with_funcs=False):
+        if s["k"] == "if":
+            yield s["then"]
+            yield s["else"]
+        elif s["k"] in ("loop", "scan"):
+            yield s["body"]
+
+
+def _lits(prog):
+    for s in prog_steps(prog):
+        for o in list(s.get("ins", [])) + list((s.get("kwins") or {}).values()) + list(s.get("args", [])) + [x for x in (s.get("cond"), s.get("trip")) if isinstance(x, dict)]:
+            if "lit" in o:
+                v = o["lit"]
+                yield from (v if isinstance(v, list) else [v])
+
+
+def _calls(prog):
+    return [s for s in prog_steps(prog, with_funcs=False) if s["k"] == "call"]
+
+
+def _ex(case):
+    return set(case.get("exclude", []))
+
+
+REGIONS = {
+    "subgraph_autonames": lambda c: _is_trace(c) and "subgraph_autonames" not in _ex(c) and any(b.get("scope") is None for b in _bodies(c["prog"])),
+    "inline_py_attr": lambda c: _is_trace(c) and "inline_py_attr" not in _ex(c) and any(s.get("attrs") and s.get("aform", "py") == "py" for s in _calls(c["prog"])),
+    "inline_default_attr": lambda c: _is_trace(c) and "inline_default_attr" not in _ex(c) and any(
+        any(a["name"] not in (s.get("attrs") or {}) and a.get("default") is not None for a in c["prog"]["funcs"][s["fn"]]["attrs"]) for s in _calls(c["prog"])),
+    "inline_literal_arg": lambda c: _is_trace(c) and any("lit" in o for s in _calls(c["prog"]) for o in s["args"]),
+    "nested_function": lambda c: _is_trace(c) and any(s["k"] == "call" for f in c["prog"].get("funcs", []) for s in f["body"]),
+    "nan_literal": lambda c: _is_trace(c) and sum(1 for v in _lits(c["prog"]) if v == "nan") >= 2,
+    "negzero_literal": lambda c: _is_trace(c) and any(v == "-0.0" for v in _lits(c["prog"])),
+    "unnamed_tensor_operand": lambda c: _is_trace(c) and any("tensor" in o and not o.get("name") for s in prog_steps(c["prog"]) for o in s.get("ins", [])),
+    "body_dup_return": lambda c: _is_trace(c) and any(len(set(b["ret"])) != len(b["ret"]) for b in _bodies(c["prog"])),
+    "kw_input_after_gap": lambda c: _is_trace(c) and any(_kw_gap(s, c["prog"]["opset"]) for s in prog_steps(c["prog"]) if s["k"] == "op" and s.get("kwins")),
+    "rehomed_in_unnamed_sequential": lambda c: c.get("part") == "tree" and bool(c.get("rehomed_in_seq")),
+}
+
+
+def _kw_gap(s, opset):
+    schema = schema_of(s["op"], s.get("dom", ""), opset)
+    if schema is None:
+        return False
+    names = [i.name for i in schema.inputs]
+    idx = sorted(names.index(k) for k in s["kwins"])
+    have = set(range(len(s["ins"]))) | set(idx)
+    return any(j not in have for j in range(max(idx)))
 
 
 # =====================================================================================================================
@@ -688,9 +2905,9 @@ def plan(tier, seed, budget):
     only = os.environ.get("VERIF_ONLY", "")
     specs = []
     if tier == "quick":
-        nt, ntree, shards_t, shards_tree = 160, 500, 11, 5
+        nt, ntree, shards_t, shards_tree = 450, 1200, 11, 5
     else:
-        nt, ntree, shards_t, shards_tree = 5000, 15000, 12, 4
+        nt, ntree, shards_t, shards_tree = 12000, 40000, 12, 4
     if "tree" not in only:
         for i in range(shards_t):
             specs.append({"part": "trace", "n": max(1, int(nt * budget))})
